@@ -12,2906 +12,1073 @@ Definition show_fres (r : fres) : string :=
   end.
 Definition check (rs : list rune) : string := digest (show_fres (format_res rs)).
 Definition full (rs : list rune) : string := show_fres (format_res rs).
-Eval vm_compute in ("<<<M4435>>>" ++ check (runes_of_ascii "  // " ++ [27880; 37322]%N ++ runes_of_ascii "
-  packet A
-    {@calculatedFrom(  ""a	b""
-) 
-u128	@lengthOf(
-asx 	 /// triple
-
-)
-
-`doc`  , 	 // `tick` ""quote"" 'q'
-
-charz 
-@lengthOf(
-
-    repeatCount),
-
-    i8
-	metadata @lengthOf( body )
-	`{ , }`
-
-    ,
-
-@tag(
-	    // `tick` ""quote"" 'q'
-0123456789 )repeat x_y_z
-    lengthOf
-, 
-@calculatedFrom(
-    ""{,}"" 
-)options1
-{
-match
-
-metadata
-
-    as
-
-chars
-{""// no comment""
-	:matchKey 
-, }
-
-    ,}
-
-, Z9_ 
-
-    // trailing space 
-// @lengthOf(
-
-``
-, repeat  i64_
-    `` , @tag(	42	)
-    uint8  chars  @calculatedFrom( 
-""abc""
-) ,  } MetaData
-	charz
-
-    {  char[]
-
-    Packet
-
-    ,i64
-    string_
-
-`{ , }`
-
-,	// " ++ [128512]%N ++ runes_of_ascii " emoji
-    	int64 a1 `tab	here` ,
-
-}
-	packet
-
-matchKey//	t
-    {
-repeat  x
-	{string
-	// c
-    Logon `doc`
-
-,
-}
-,
-repeat 
-u32  // trailing space 
-  chars
-,
-
-    @calculatedFrom( // c
-	""`tick`""
-) o
-	falsey
-
-`say ""hi""`, 
-zchar[
-007
-    ] string_ @lengthOf(Header
-
-    )`line1
-line2`
-        // trailing space 
-	, match x as
-
-    uint8x {  1  //
-  : 
-a1
-
-    ,
-
-    [  ""a	b""
-
-    ,  42 ,
-	65535 ]	:
-
-T 
-, """ ++ [28040; 24687]%N ++ runes_of_ascii """
-: metadata 
-
-    // packet A { u8 x, }
-    // c
-
-  , },
-match 
-Z9_
-as msg_type	// a // b
-      {
-65535://	t
-u ,[
-    // " ++ [128512]%N ++ runes_of_ascii " emoji
-// c
-	7
-
-    ,7 	 // trailing space 
-	, 42	, """ ++ [28040; 24687]%N ++ runes_of_ascii """
-	]	: asx
-
-    ,
-	""" ++ [233]%N ++ runes_of_ascii "t" ++ [233]%N ++ runes_of_ascii """	:
-_x ,	[  
-      // `tick` ""quote"" 'q'
-
-// " ++ [27880; 37322]%N ++ runes_of_ascii "
-255
-
-]:
-	metadata ,
-}  // `tick` ""quote"" 'q'
-  	,
-float32 len,
-
-repeat	len , @tag(
-
-    007)	repeat
-	f64  pack
-
-// trailing space 
-		,}
-
-packet stringy
-
-    {
-    // trailing space 
-	  // packet A { u8 x, }
-	  @lengthOf(	As 
-) 
-@calculatedFrom( ""\" ++ [233]%N ++ runes_of_ascii """ )
-
-@tag(
-
-7
-
-    )
-u8  x_y_z 
-@lengthOf(
-pack)
-
-    `crlf
-line` 
-,
-
-uint8
-	chars`doc`,	@calculatedFrom(""CRC32""	)
-
-@leftPad('0'
-)  
-      // @lengthOf(
-  @lengthOf(
-leftPad)
-match
-packetx 
-
-    // @lengthOf(
-  // " ++ [128512]%N ++ runes_of_ascii " emoji
-    as
-float
-    {[ ""// no comment""
-    , 007 ] :
-	msg_type,	//	t
-    1  // packet A { u8 x, }
-  : rootA	, 7  :
-	lengthOf// " ++ [128512]%N ++ runes_of_ascii " emoji
-, [ // a // b
-  """ ++ [128512]%N ++ runes_of_ascii """
-
-] : x
-,[ //
-    42
-	,// `tick` ""quote"" 'q'
-		65535
-	] :	// " ++ [27880; 37322]%N ++ runes_of_ascii "
-	falsey 
-,  // " ++ [27880; 37322]%N ++ runes_of_ascii "
-	  }
-	    //	t
-    	// packet A { u8 x, }
-,
-char[1
-	] lengthOf
-    @lengthOf( metadata
-	)
-,u8 crc
-@calculatedFrom(  """ ++ [128512]%N ++ runes_of_ascii """) 
-`say ""hi""`
-, 
-}
-")).
-Eval vm_compute in ("<<<M3856>>>" ++ check (runes_of_ascii "
-root  packet
-	Foo 
-{
-
-chars 
-{
-
-falsey 
-body  , zchar[ 
-3 
-]repeatCount 
-`{ , }`
-,
-
-    } ,@lengthOf(
-    BodyLength ) i8  //	t
-
-Z9_	@lengthOf(  trueish
-),  // " ++ [128512]%N ++ runes_of_ascii " emoji
-  @rightPad	(
-
-    ) repeat
-Pad
-    { _x
-
-@calculatedFrom(	// `tick` ""quote"" 'q'
-      ""\" ++ [233]%N ++ runes_of_ascii """ 
-)	,
-
-    match 
-msg_type as 	 // @lengthOf(
-    uint8x
-	{[	1 ,
-
-    ""\n""
-	, 0 ,
-""\n""
-]
+Eval vm_compute in ("<<<M310>>>" ++ check (runes_of_ascii "root packet rootA {@calculatedFrom(
+""""
+)match packetx as x_y_z
+{ // `tick` ""quote"" 'q'
+""" ++ [28040; 24687]%N ++ runes_of_ascii """ : crc , ""a	b""
     :
-
-Packet
-
-""CRC32"": pack
-,  }	, 
-}
-
-    ,
-
-    @calculatedFrom(  ""a\""b"" )  repeat
-	body
-    { 
-char[007 
-] i64_ // `tick` ""quote"" 'q'
-		`
-` 
-,	match  charz as  pack {
-	65535
-:
-
-    u8x
-	65535 :
-    zchar
-
-    ,
-[
-	255 
-] // trailing space 
-  	:chars 
-	    // `tick` ""quote"" 'q'
-    // " ++ [128512]%N ++ runes_of_ascii " emoji
-      , 1  : stringy
-,
-
-[ """ ++ [28040; 24687]%N ++ runes_of_ascii """
-]
-	: 
-int	,0:  // " ++ [128512]%N ++ runes_of_ascii " emoji
-asx
-    ,	} // " ++ [27880; 37322]%N ++ runes_of_ascii "
-,
-    }
-    ,
-    match	// c
-o
-
-    as
-// " ++ [128512]%N ++ runes_of_ascii " emoji
-
-// `tick` ""quote"" 'q'
-A{007 
-: 
-calculatedFrom
-,
-
-    ""abc"":roots 
-    // packet A { u8 x, }
-// packet A { u8 x, }
-,	""`tick`""
-
-:	Foo	,  ""it's"": Foo , 007
-:  
-  //	t
-// packet A { u8 x, }
-      float ,
-    } ,
-@leftPad 
-( ' ' 
-    // trailing space 
-  	// `tick` ""quote"" 'q'
-  )
-        // `tick` ""quote"" 'q'
-  // trailing space 
-	repeat
-
-    repeatCount
-,
-
-    char[007
-]u128
-// `tick` ""quote"" 'q'
-// packet A { u8 x, }
-
-`crlf
-line`
-,} 	 //
-
-packet 
-asx{
-charz{ rootA
-    //	t
-// trailing space 
-    @calculatedFrom(	""" ++ [233]%N ++ runes_of_ascii "t" ++ [233]%N ++ runes_of_ascii """
-) ,
-
-    }
-, }
-
-packet 
-msg_type	{  } 
-MetaData
-o {	f32
-msg_type
-    ,int64  body ,
-	}  root	packet body{@tag( 1
-    ) @calculatedFrom(
-	""`tick`""	) 
-@tag(
-
-0123456789 )metadata
-
-{
-    pack  i64_	,
-
-    } 
-,
-repeat
-    zchar[
-7 
-
-// trailing space 
-] asx
-,
-    chars@calculatedFrom( ""\n"")
-	,	repeat zchar[
-4294967296
-
-    ]
-x
-, @rightPad	( 
-'\x00'
-)
-
-u8
-	msg_type
-	`" ++ [233]%N ++ runes_of_ascii "`
-,float64 pack  @lengthOf(
-
-    MetaDataX
-
-) ,}
-")).
-Eval vm_compute in ("<<<M1387>>>" ++ check (runes_of_ascii "
-MetaData x { string_ x
-    `tab	here`,}
-packet
-u { @tag(
-1 ) match x
-as
-    Z9_
-{
-""a\""b"" : asx
-    } , // " ++ [128512]%N ++ runes_of_ascii " emoji
-leftPad @calculatedFrom(
-    ""it's"" ) `" ++ [28040; 24687; 31867; 22411]%N ++ runes_of_ascii "` ,//	t
-@tag(10 ) Packet ,
-u64
-//x
-// a // b
-stringy @calculatedFrom( ""1"" )  `doc`
-    , char[ 3 ]// " ++ [128512]%N ++ runes_of_ascii " emoji
-x_y_z @lengthOf( lengthOf
-)	`" ++ [28040; 24687; 31867; 22411]%N ++ runes_of_ascii "` , } root packet Pad
-{ int8
-Header @calculatedFrom(
-""1""  ) `u8 x,` ,
-@calculatedFrom(
-    """ ++ [128512]%N ++ runes_of_ascii """// packet A { u8 x, }
-) int64 BodyLength
-`u8 x,`
-, @leftPad
-    ( ' '
-    // a // b
-    )
-char[]
-float ,@lengthOf(//x
-repeatCount ) char[] repeatCount, } packet falsey
-//
-// `tick` ""quote"" 'q'
-{@calculatedFrom( """ ++ [28040; 24687]%N ++ runes_of_ascii """) @rightPad ( )@leftPad // c
-( '\x00' )	zchar[3]
-i8i8 `tab	here`
-,
-    }
-//x
-// packet A { u8 x, }
-packet
-zchar
-    { Header
-@calculatedFrom(
-    ""a\\"" ) , // a // b
-msg_type``
-,  @calculatedFrom( """ ++ [28040; 24687]%N ++ runes_of_ascii """)  Logon
-    zchar	,i32 u128 @calculatedFrom(""packet"")
-// packet A { u8 x, }
-/// triple
-,
-// `tick` ""quote"" 'q'
-// c
-u8 _x
-    `
-` ,
-@leftPad ( '0'
-) uint16 asx `a\` ,@calculatedFrom( ""\n"" )
-@calculatedFrom( ""a	b""	)
-    float64
-    leftPad @lengthOf(
-    // c
-    repeatCount
-/// triple
-//
-) `it's` , match metadata
-as
-options1 { [  42, 1	]// `tick` ""quote"" 'q'
-: BodyLength""`tick`""
-    :_x ,
-    65535
-: asx, 65535
-    : BodyLength ""a\\"" :
-    //
-    string_ } ,match
-/// triple
-//
-uint8x as
-chars
-{ 10 :/// triple
-Logon
-""// no comment"": float , /// triple
-[ ""packet""	,  7
-] :MetaDataX
-    10
-:asx
-    , """ ++ [28040; 24687]%N ++ runes_of_ascii """ :
-i64_ ,} ,  }")).
-Eval vm_compute in ("<<<M4526>>>" ++ check (runes_of_ascii "
-packet roots
-
-    {
-
-@lengthOf(
-
-    a1
-
-) 
-    //x
-	uint32 stringy
-
-`it's`
-
-,@tag( 
-0)	string a1 
-//	t
-//x
-	  ,
-	match 
-len
-as
-zchar	{ 
-        // @lengthOf(
-		42
-
-:
-    lengthOf,	""" ++ [233]%N ++ runes_of_ascii "t" ++ [233]%N ++ runes_of_ascii """
-	:
-	len
-	""""
-    : Z9_,} , @calculatedFrom(
-
-""{,}""
-
-)	// " ++ [128512]%N ++ runes_of_ascii " emoji
-    	@tag( 42	)rootA@lengthOf( 
-repeatCount
-    ) `" ++ [233]%N ++ runes_of_ascii "` // `tick` ""quote"" 'q'
-
-,	BodyLength 
-{ 
-f64 tag
-    `u8 x,`
-    ,
-	//
-}  ,zchar[255
-    ]  f32a
-`
-`
-	,
-    @lengthOf(
-rootA 
-) a1,
-
-@calculatedFrom(
-""" ++ [28040; 24687]%N ++ runes_of_ascii """
-	)
-repeat
-u32 As
-
-`doc`,
-	}packet o {	repeat uint8 A
-
-,
-
-} 
-MetaData
-	u128 {
-int64 	 //	t
-      x_y_z	`doc` 
-,
-
-}options { asx// @lengthOf(
-      = 65535
-	;
-
-metadata//
-    = u32 ; pack=
-zchar[ 0123456789]}  root
-packet 
-lengthOf	{
-@leftPad 
-(
-'0'	) 
-@calculatedFrom(
-// " ++ [27880; 37322]%N ++ runes_of_ascii "
-  //x
-
-  ""it's""
-	)  int 
-@calculatedFrom(
-	""`tick`""
-)
-
-, i32 len, @leftPad
-	(
-	'\x00'
-
-    )  repeat char[]
-
-    falsey	,
-@tag(
-255
-) 
-i32
-lengthOf
-@lengthOf( MetaDataX) 
-, match
-int  as
-A
-{ 10
-:
-body
-
-,
-
-    ""abc"":
-    a1 , }
-
-    ,
-    metadata`a\`
-    ,
-    int32
-uint8x
-
-@lengthOf(
-
-repeatCount  ) 
-,
-	@leftPad
-	(
-
-)	crc 
-body
-,  repeat  T
-
-{
-    // " ++ [128512]%N ++ runes_of_ascii " emoji
-float64  x
-, char[] tag 
-
-// trailing space 
-
-  `say ""hi""`	, 
-repeat
-Header
-	{ char[]
-string_ 
-`say ""hi""`  ,Z9_
-,  }
-    ,// " ++ [128512]%N ++ runes_of_ascii " emoji
-  } 
-	    //x
-,
-    }
-
-")).
-Eval vm_compute in ("<<<M3505>>>" ++ check (runes_of_ascii "packet Frame
-    // c1
-{ // c2a
-  // c2b
-u8 HK // c4a
-  // c4b
-, // c5
-u8
-    // c6
-BK // c7a
-  // c7b
-, // c8a
-  // c8b
-u8 TK // c10a
-  // c10b
-,
-    // c11
-match HK as // c14a
-  // c14b
-Hdr { // c16a
-  // c16b
-1 // c17a
-  // c17b
-: // c18a
-  // c18b
-HdrA
-    // c19
-, // c20a
-  // c20b
-2 // c21
-:
-    // c22
-HdrB // c23a
-  // c23b
-,
-    // c24
-} ,
-    // c26
-match BK
-    // c28
-as Body // c30
-{ // c31
-1 // c32a
-  // c32b
-:
-    // c33
-BodyA // c34
-, // c35a
-  // c35b
-2 : BodyB // c38
-, // c39a
-  // c39b
-} // c40
-, match // c42
-TK as
-    // c44
-Trl // c45a
-  // c45b
-{ 1 // c47a
-  // c47b
-:
-    // c48
-TrlA
-    // c49
-, }
-    // c51
-,
-    // c52
-} // c53
-packet HdrA // c55a
-  // c55b
-{ // c56
-u8 // c57
-a // c58
-, // c59a
-  // c59b
-}
-    // c60
-packet // c61a
-  // c61b
-HdrB { // c63
-u16 b ,
-    // c66
-}
-    // c67
-packet BodyA
-    // c69
-{ u32
-    // c71
-c // c72
-,
-    // c73
-}
-    // c74
-packet // c75a
-  // c75b
-BodyB { // c77
-u64 // c78a
-  // c78b
-d , } // c81a
-  // c81b
-packet // c82
-TrlA { // c84
-u8 // c85a
-  // c85b
-e
-    // c86
-, // c87a
-  // c87b
-} root
-    // c89
-packet // c90
-Msg // c91
-{ // c92a
-  // c92b
-Frame , u8 // c95
-x
-    // c96
-, // c97a
-  // c97b
-} // c98
-")).
-Eval vm_compute in ("<<<M4211>>>" ++ check (runes_of_ascii "packet chars {
-    i8 Z9_,
-    match zchar as Logon {
-        00 : i8i8,
-        [
-            ""// no comment"", 42, 10, ""it's"", 4294967296,
-            ""`tick`"", ""x y"", ""a\""b""
-        ] : leftPad,
-        [""\" ++ [233]%N ++ runes_of_ascii """] : A,
-        [""abc"", ""1""] : zchar,
-        3 : x,
-        3 : x_y_z,
-    },
-    uint8x @calculatedFrom(""{,}""),
-}// `tick` ""quote"" 'q'
-
-packet calculatedFrom {
-    int32 T,
-    @lengthOf(float)
-    f32a len,
-    @calculatedFrom(""" ++ [233]%N ++ runes_of_ascii "t" ++ [233]%N ++ runes_of_ascii """)
-    int32 f32a @lengthOf(matchKey) `" ++ [233]%N ++ runes_of_ascii "`,
-    charz @calculatedFrom(""x y""),
-}
-
-root packet stringy {
-    @lengthOf(Logon)
-    int64 len @calculatedFrom(""CRC32""),
-    T @calculatedFrom(""1"") `line1
-    line2`,
-    @tag(255)
-    @tag(7)
-    @tag(007)
-    repeat packetx len,
-    @tag(1)
-    repeat zchar[0] float,//
-    @lengthOf(lengthOf)
-    repeat x_y_z {
-        char[10] u `
-        `,
-        MetaDataX a1 `u8 x,`,
-    },
-    @tag(1)
-    string repeatCount `" ++ [28040; 24687; 31867; 22411]%N ++ runes_of_ascii "`,
-    int8 int @calculatedFrom(""// no comment""),
-}
-
-packet asx {
-    @leftPad('\x00')
-    char[00] u8x @calculatedFrom(""" ++ [233]%N ++ runes_of_ascii "t" ++ [233]%N ++ runes_of_ascii """),
-    zchar[007] asx @calculatedFrom(""" ++ [128512]%N ++ runes_of_ascii """),
-    repeat MetaDataX metadata `
-    `,
-}")).
-Eval vm_compute in ("<<<M3545>>>" ++ check (runes_of_ascii "// top
-options
-    // c0
-{ // c1
-LittleEndian
-    // c2
-= // c3
-false ; StringPrefixLenType // c6a
-  // c6b
-=
-    // c7
-u8
-    // c8
-; // c9a
-  // c9b
-ArrayPrefixLenType = // c11
-u16 ;
-    // c13
-FixedStringPadFromLeft = // c15a
-  // c15b
-false // c16a
-  // c16b
-; // c17a
-  // c17b
-} // c18
-packet // c19a
-  // c19b
-Heartbeat { // c21a
-  // c21b
-u8
-    // c22
-seqNo // c23a
-  // c23b
-, // c24a
-  // c24b
-@rightPad ( '\x00' // c27
-) char[
-    // c29
-8 // c30a
-  // c30b
-] // c31
-x
-    // c32
-, // c33
-} // c34
-root // c35
-packet Trade // c37
-{
-    // c38
-repeat // c39
-Heartbeat // c40
-, float32
-    // c42
-OrderId // c43a
-  // c43b
-, // c44
-i64
-    // c45
-Acct , // c47a
-  // c47b
-u16
-    // c48
-Qty // c49a
-  // c49b
-, // c50
-u16 // c51a
-  // c51b
-clOrdID
-    // c52
-, // c53a
-  // c53b
-match clOrdID // c55
-as // c56a
-  // c56b
-Body
-    // c57
-{
-    // c58
-131 // c59a
-  // c59b
-: Heartbeat , // c62a
-  // c62b
-} ,
-    // c64
-u16 // c65a
-  // c65b
-sym // c66
-@calculatedFrom( // c67a
-  // c67b
-""CRC32"" // c68
-) // c69a
-  // c69b
-,
-    // c70
-} ")).
-Eval vm_compute in ("<<<M80>>>" ++ check (runes_of_ascii "// `tick` ""quote"" 'q'
-packet	rootA{ }
-root
-packet x_y_z {
-// `tick` ""quote"" 'q'
-// packet A { u8 x, }
-@calculatedFrom( """ ++ [28040; 24687]%N ++ runes_of_ascii """  )// a // b
-@tag( 4294967296) @leftPad	(	'\x00')  match Z9_ as len // c
-{0: x_y_z /// triple
-, [ 255 , 007 ] : string_["""" ,
-""`tick`"" , """" ,
-10 ,""it's"" ,
-    """ ++ [233]%N ++ runes_of_ascii "t" ++ [233]%N ++ runes_of_ascii """ ]	: BodyLength	, 4294967296 : u,4294967296
-    // " ++ [27880; 37322]%N ++ runes_of_ascii "
-    :	Header ,
-""packet"": trueish , }
-,
-match int as asx { 007 : leftPad , ""abc"":
-_x
-65535 :stringy ""CRC32"" : int , 255 : A }, match asx as a1  {	[ 0123456789 ]: crc,""packet"" : leftPad ,
-    ""\n"" : //x
-crc
-, 10
-    //x
-    :
-// a // b
-// a // b
-chars ,},
-    i16
-rootA @calculatedFrom(
-""abc"" ) , @lengthOf(Pad)  rootA As`" ++ [233]%N ++ runes_of_ascii "`,match i64_
-    //	t
-    as packetx{	[ """ ++ [28040; 24687]%N ++ runes_of_ascii """ ] :repeatCount
-, 65535 : i8i8 ,
-    } , // a // b
-stringy len , }packet o{
-} packet
-Header {	_x
-string_ ,
-@lengthOf(
-    u8x )
-lengthOf `it's`
-, } options
-    { A // trailing space 
-= ""it's"";
-zchar
-= ""packet"" ; // " ++ [128512]%N ++ runes_of_ascii " emoji
-len
-= 4294967296 ; T= ""abc""int
-    =
-3 ; }
-")).
-Eval vm_compute in ("<<<M4086>>>" ++ check (runes_of_ascii "//	t
-root packet Header {
-    @tag(255)
-    float32 msg_type @lengthOf(u8x) `" ++ [28040; 24687; 31867; 22411]%N ++ runes_of_ascii "`,
-    //x
-    @calculatedFrom(""a	b"")
-    repeat string i64_,
-    repeat x_y_z {
-        //x
-        asx,
-        string i8i8 @lengthOf(float),
-        uint16 As @calculatedFrom(""x y""),
-    },//
-    @lengthOf(i8i8)
-    msg_type {
-        match tag as Z9_ {
-            [1, ""packet""] : Z9_,
-            [4294967296] : options1,
-            ""\n"" : Pad,
-        },
-        match calculatedFrom as packetx {
-            0123456789 : metadata,
-            [""" ++ [233]%N ++ runes_of_ascii "t" ++ [233]%N ++ runes_of_ascii """] : T,
-            1 : i64_,
-        },//	t
-        match BodyLength as chars {
-            0 : metadata,
-            """ ++ [128512]%N ++ runes_of_ascii """ : u128,
-            ""a\""b"" : calculatedFrom,
-            0 : As,
-            """ ++ [128512]%N ++ runes_of_ascii """ : x_y_z,
-            7 : f32a,
-        },
-        u trueish,
-    },
-}
-
-MetaData charz {
-    i32 x `u8 x,`,
-    char[] calculatedFrom `two words`,
-    int8 packetx `crlf
-    line`,
-}
-
-MetaData charz {
-}")).
-Eval vm_compute in ("<<<M4315>>>" ++ check (runes_of_ascii "packet zchar {
-    repeat trueish _x,
-    @calculatedFrom(""\n"")
-    uint16 stringy `// not a comment`,
-    @rightPad(' ')
-    body {
-        leftPad i8i8,
-        lengthOf {
-            // " ++ [128512]%N ++ runes_of_ascii " emoji
-            // " ++ [27880; 37322]%N ++ runes_of_ascii "
-            int64 asx `// not a comment`,
-            leftPad {
-                packetx @lengthOf(MetaDataX),
-            },
-            i32 o,
-        },
-    },
-    f32 Z9_ `crlf
-        line`,
-    @calculatedFrom(""abc"")
-    calculatedFrom charz,
-    repeat zchar Z9_,
-    match T as o {
-        00 : calculatedFrom,
-        0123456789 : charz,
-        ""\" ++ [233]%N ++ runes_of_ascii """ : a1,
-    },
-    @lengthOf(A)
-    repeat len,
-}
-
-root packet Pad {
-}
-
-options {
-    msg_type = ""\n""// packet A { u8 x, }
-    trueish = int8;
-    // " ++ [128512]%N ++ runes_of_ascii " emoji
-    // `tick` ""quote"" 'q'
-    repeatCount = ' '
-    u128 = ""\" ++ [233]%N ++ runes_of_ascii """;
-    charz = char[007]
-}
-
-MetaData string_ {
-    i64 Foo `say ""hi""`,
-    chars calculatedFrom,
-}")).
-Eval vm_compute in ("<<<M4171>>>" ++ check (runes_of_ascii "
-packet body 
-{
-    @tag(
-    0123456789
-)
-repeatCount
-{// @lengthOf(
-i32 
-roots@calculatedFrom(
-""it's""
-	) 
-  // trailing space 
-, char[] 
-repeatCount  @calculatedFrom( ""packet"")
-	`two words` // " ++ [128512]%N ++ runes_of_ascii " emoji
-    ,
-	repeat  u16
-
-roots , match lengthOf  as
-	As//	t
-  	{ [
-
-    ""packet""  ,
-
-""" ++ [28040; 24687]%N ++ runes_of_ascii """  ,
-255,42 , 
-""\" ++ [233]%N ++ runes_of_ascii """ ]
-:
-
-x_y_z	,}
-
-    ,}
-
-,
-trueish
-, @tag(
-
-65535
-
-)
-
-    @tag( 255)/// triple
-@tag(
-00 )
-    chars
-	@calculatedFrom(
-	""it's""	) ,
-	match
-	o 
-as
-    // `tick` ""quote"" 'q'
-
-roots
-{
-	    // " ++ [27880; 37322]%N ++ runes_of_ascii "
-	// c
-""{,}"" :options1
-,
-
-""" ++ [28040; 24687]%N ++ runes_of_ascii """	:
-
-    lengthOf 
-,
-	00
-    :  pack	,  [
-
-    ""a\""b""
-]
-:	msg_type
-,
-	1
-	:i8i8	,
-	[ 10 
-, 3
-	,
-    """"
-] :	falsey ,},}
-
-    root
-packet  // `tick` ""quote"" 'q'
-
-	Z9_
-	{
-	repeat
-
-char[] 	 // a // b
-Packet
-
-,
-
-    string chars @calculatedFrom(
-""a\""b"" )
-`// not a comment` 
-      // " ++ [128512]%N ++ runes_of_ascii " emoji
-		, }
-")).
-Eval vm_compute in ("<<<M896>>>" ++ check (runes_of_ascii "options
-/// triple
-// @lengthOf(
-{ o = '\x00';
-} packet tag {int16
-    falsey// trailing space 
-`two words`
-,
-    /// triple
-    T	,
-}  packet asx {
-match T as	falsey
-    {7
-    :  x , } , zchar[ 4294967296] matchKey
-    @calculatedFrom( // `tick` ""quote"" 'q'
-""`tick`"")
-`" ++ [233]%N ++ runes_of_ascii "` , @lengthOf(	calculatedFrom ) // " ++ [128512]%N ++ runes_of_ascii " emoji
-crc {
-repeat A
-{	msg_type  ,	repeat
-    char[] zchar
-    `{ , }` ,  u16 pack , // " ++ [128512]%N ++ runes_of_ascii " emoji
-u8 metadata @lengthOf( // a // b
-leftPad ) `" ++ [28040; 24687; 31867; 22411]%N ++ runes_of_ascii "` , } , }
-, msg_type {
-    repeat
-Foo{
-    match Foo as  Pad// packet A { u8 x, }
-{
-    [ 65535 ] : //	t
-charz ,[""`tick`"" ] :o
-    ,
-    255 :pack
-    , },
-    char[]	packetx , zchar[7	] i8i8 , } , //	t
-}
-, i8 chars , } root packet metadata// `tick` ""quote"" 'q'
-{  match uint8x as
-    u8x{ 65535 :
-x_y_z ,} ,}MetaData leftPad { i32 u128 , } // " ++ [27880; 37322]%N)).
-Eval vm_compute in ("<<<M4351>>>" ++ check (runes_of_ascii "  MetaData
-
-    options1
-
-    {float64 	 //
-	msg_type
-`say ""hi""`
-,
-    u32  x
-
-, f64 
-// a // b
-	//	t
-	tag 
-, }root
-
-packet
-
-    chars
-    /// triple
-  {
-}
-packet
-repeatCount
-    {
-
-    @lengthOf(
-    a1
-	)
-rootA @lengthOf(
-	crc 
-    // trailing space 
-
-// @lengthOf(
-
-)
-	,}	root	packet	x
-    {chars	@lengthOf(msg_type
-	), 
-      // trailing space 
-	int16  metadata 
-@lengthOf(
-        // @lengthOf(
-  Pad)	,	@tag(
-	3) @lengthOf(
-
-a1 
-) uint8 options1	, repeat	string
-_x
-`" ++ [233]%N ++ runes_of_ascii "`,
-
-    string
-    f32a
-    @calculatedFrom(
-""{,}""
-)
-`{ , }` ,@tag( 4294967296
-    ) 
-@calculatedFrom(
-
-""// no comment"")
-
-@leftPad
-
-    ( )
-
-    BodyLength
-@lengthOf(  falsey 
-	// a // b
-)  `a\`
-
-,/// triple
-    repeat string
-	int	`
-` 
-    // " ++ [27880; 37322]%N ++ runes_of_ascii "
-  ,
-
-u8 
-lengthOf
-    ,
-	}
-")).
-Eval vm_compute in ("<<<M3893>>>" ++ check (runes_of_ascii "options
-
-{ StringPrefixLenType 
-= u16
-    ;
-ArrayPrefixLenType
-
-    =  u32; FixedStringPadFromLeft = false
-    ; FixedStringPadChar =  '0'	;
-    }
-packet  Logout {
-f64
-    f1,
-	i16
-	Note
-	, @rightPad( '\x00'
-
-)char[
-11
-]
-
-Flags
-
-, }
-
-packet
-
-    Cancel 
-{ 
-float64
-    msgKind, } packet Reject
-    {
-	InQty43 {float32
-
-    sym
-,	char[ 
+i8i8, ""it's"" : msg_type
 10
-] Tail
-,
-    uint8
-venue,uint16
-f1 ,
-
-char[9	]
-    Acct
-
-    , } ,
-}  packet
-Trade{char[] 
-x ,zchar[ 
-6  ]
-    Note 
-,	repeat
-Reject , } root
-
-    packet
-    Order {Cancel , Logout	,  u64
-Acct  ,
-
-    u32
-
-    OrderId	, 
-match
-OrderId  as
-Body  {
-    [ 
-127 ,
-
-70 ]  : Reject ,	177: 
-Trade
-	,58
-:
-
-Logout ,  75
-
     :
-	Cancel ,
-
-}  ,
-
-u32 Tail @calculatedFrom(""CR\
-C32"" 
-),} ")).
-Eval vm_compute in ("<<<M39>>>" ++ check (runes_of_ascii "  options
-    {string_
+string_,0123456789:int ,
+}	,	zchar[ 0123456789
+    ]
+_x	`say ""hi""` , @lengthOf(	lengthOf )
+repeat
     //x
-    =char[ 7 ] ;} options { crc=float64 ; Logon
-    = false // a // b
-As
-    =
-    '0' f32a =
-char[] ; // packet A { u8 x, }
-T =
-00	}	root
-packet x { @calculatedFrom(
-""1"" )repeat zchar[
-    255
-] // " ++ [128512]%N ++ runes_of_ascii " emoji
-string_ , } root packet int {	@tag(4294967296) char[255 // packet A { u8 x, }
-]
-a1
-    ,repeat
-x ``, char[]  packetx
-@lengthOf( uint8x ) `u8 x,` , zchar[ 10 ]leftPad @calculatedFrom( ""a	b"" )
-, lengthOf @calculatedFrom( """"	) , @calculatedFrom(
-    /// triple
-    ""packet"" )
-    i32 matchKey , @rightPad (
-) zchar[ 1
-] A, u32
-Packet @calculatedFrom( ""{,}"" ) `a\`	,// c
-repeat char[00]Header	`say ""hi""`
+    chars
+{ repeat i16 u , }, i16 u @lengthOf( Pad ) `say ""hi""`
+, string
+    u8x @calculatedFrom(
+    ""\n""
+    ) //	t
+`" ++ [233]%N ++ runes_of_ascii "` //x
+,MetaDataX`" ++ [233]%N ++ runes_of_ascii "` , char[] Header  @lengthOf(
+    //	t
+    Foo )`u8 x,`, //
+}
+// c
+// " ++ [128512]%N ++ runes_of_ascii " emoji
+packet  repeatCount	{
+@tag( 7
+    // `tick` ""quote"" 'q'
+    )
+char[] x_y_z //x
+`it's` , @calculatedFrom(""`tick`"" )repeat o,
+    @lengthOf(
+    pack )
+@lengthOf( u128 ) @lengthOf(stringy	)
+match zchar as MetaDataX { [ ""// no comment"",0 ] // " ++ [27880; 37322]%N ++ runes_of_ascii "
+: options1
+    ,
+    [
+    ""a	b"" ,
+""`tick`""
+    ,""" ++ [233]%N ++ runes_of_ascii "t" ++ [233]%N ++ runes_of_ascii """, 7
+    // trailing space 
+    , 0123456789
+] :	string_
+    , ""a\""b"" :len, ""a\\"" : MetaDataX	, }, u8x
+{ repeat
+chars MetaDataX
+`two words`, repeat Header	len `` , pack { u16
+asx @calculatedFrom(
+    ""`tick`"")
     //x
-    , stringy	trueish `// not a comment`, } 	 ")).
-Eval vm_compute in ("<<<M4271>>>" ++ check (runes_of_ascii "// top
-options {
-    // c1
-    LittleEndian = false;
-    StringPrefixLenType = u8;// c9a
-    // c9b
+    `line1
+line2` , f64 string_ ,float32 zchar // " ++ [27880; 37322]%N ++ runes_of_ascii "
+@lengthOf(i8i8 )
+, As @lengthOf(
+    //	t
+    _x ) `u8 x,`, } ,int32 roots`doc` , }
+    , } packet As { @lengthOf( leftPad )
+@calculatedFrom(	"""" ) x_y_z
+@lengthOf(
+    i8i8 )	`" ++ [233]%N ++ runes_of_ascii "` , repeat float32 Z9_
+    //	t
+    ,// `tick` ""quote"" 'q'
+pack ,
+    msg_type
+, // `tick` ""quote"" 'q'
+@rightPad // a // b
+(
+'0' )
+// a // b
+// @lengthOf(
+u16 crc ,
+    @lengthOf( chars)	repeat
+x`it's`
+, } packet body/// triple
+{@calculatedFrom(  """ ++ [28040; 24687]%N ++ runes_of_ascii """ ) T @lengthOf(
+    u8x ) , @tag( 3)
+    // packet A { u8 x, }
+    u32
+    u
+//	t
+// @lengthOf(
+@lengthOf(
+    msg_type
+    // c
+    )
+    , @calculatedFrom(
+""" ++ [128512]%N ++ runes_of_ascii """
+)	repeat char[ 10] A // c
+, x{ string o
+, match  Pad // " ++ [27880; 37322]%N ++ runes_of_ascii "
+as rootA { ""packet"" :matchKey } ,u64
+x_y_z ,char[]
+leftPad @lengthOf( float // @lengthOf(
+)
+    , /// triple
+}
+,
+    repeat uint8x falsey	`" ++ [233]%N ++ runes_of_ascii "`, @lengthOf( Z9_ )u8 f32a , @tag( 0123456789 )
+// @lengthOf(
+// `tick` ""quote"" 'q'
+u8 matchKey ``
+, Pad trueish `say ""hi""`
+    ,}
+")).
+Eval vm_compute in ("<<<M382>>>" ++ check (runes_of_ascii "options {
+    StringPrefixLenType = u16;
     ArrayPrefixLenType = u16;
-    // c13
-    FixedStringPadFromLeft = false;// c17a
-    // c17b
-}// c18
+}
+
+packet SampleBinary {
+    uint16 MsgType `" ++ [28040; 24687; 31867; 22411]%N ++ runes_of_ascii "`,
+    u16 BodyLenght @lengthOf(Body) `" ++ [28040; 24687; 20307; 38271; 24230]%N ++ runes_of_ascii "`,
+    match MsgType as Body {
+        1 : Logon,
+        2 : Logout,
+        3 : Heartbeat,
+        4 : RiskControlRequest,
+        5 : RiskControlResponse,
+    },
+    @calculatedFrom(""CRC32"")
+    u32 Ckecksum `" ++ [26657; 39564; 21644]%N ++ runes_of_ascii "`,
+}
+
+packet Logon {
+    @leftPad('0')
+    char[10] UserName `" ++ [29992; 25143; 21517]%N ++ runes_of_ascii "`,
+    string Password `" ++ [23494; 30721]%N ++ runes_of_ascii "`,
+    uint64 ClientId `" ++ [23458; 25143; 31471]%N ++ runes_of_ascii "ID`,
+    u16 HeartbeatInterval `" ++ [24515; 36339; 38388; 38548]%N ++ runes_of_ascii "`,
+}
+
+packet Logout {
+    @rightPad('0')
+    char[10] UserName `" ++ [29992; 25143; 21517]%N ++ runes_of_ascii "`,
+    uint64 ClientId `" ++ [23458; 25143; 31471]%N ++ runes_of_ascii "ID`,
+}
 
 packet Heartbeat {
-    // c21a
-    // c21b
-    u8 seqNo,// c24a
-    // c24b
-    @rightPad('\x00')
-    char[8] x,// c33
-}// c34
+}
+
+packet RiskControlRequest {
+    string UniqueOrderId `" ++ [21807; 19968; 35746; 21333; 21495]%N ++ runes_of_ascii "`,
+    char[16] ClOrdID `" ++ [23458; 25143; 35746; 21333; 21495]%N ++ runes_of_ascii "`,
+    char[3] MarketID `" ++ [24066; 22330]%N ++ runes_of_ascii "id`,
+    char[12] SecurityID `" ++ [35777; 21048; 20195; 30721]%N ++ runes_of_ascii "`,
+    char Side `" ++ [20080; 21334; 26041; 21521]%N ++ runes_of_ascii "`,
+    char OrderType `" ++ [35746; 21333; 31867; 22411]%N ++ runes_of_ascii "`,
+    u64 Price `" ++ [20215; 26684]%N ++ runes_of_ascii "`,
+    u32 Qty `" ++ [25968; 37327]%N ++ runes_of_ascii "`,
+    repeat string ExtraInfo `" ++ [38468; 21152; 20449; 24687]%N ++ runes_of_ascii "`,
+    repeat SubOrder {
+        char[16] ClOrdID `" ++ [23376; 35746; 21333; 21495]%N ++ runes_of_ascii "`,
+        u64 Price `" ++ [23376; 35746; 21333; 20215; 26684]%N ++ runes_of_ascii "`,
+        u32 Qty `" ++ [23376; 35746; 21333; 25968; 37327]%N ++ runes_of_ascii "`,
+    },
+}
+
+packet RiskControlResponse {
+    string UniqueOrderId `" ++ [21807; 19968; 35746; 21333; 21495]%N ++ runes_of_ascii "`,
+    i32 Status `" ++ [29366; 24577]%N ++ runes_of_ascii "`,
+    string Msg `" ++ [32467; 26524; 20449; 24687]%N ++ runes_of_ascii "`,
+    repeat Detail,
+}
+
+packet Detail {
+    string RuleName `" ++ [35268; 21017; 21517; 31216]%N ++ runes_of_ascii "`,
+    u16 Code `" ++ [21407; 22240; 20195; 30721]%N ++ runes_of_ascii "`,
+}")).
+Eval vm_compute in ("<<<M1822>>>" ++ check (runes_of_ascii "MetaData i8i8 {
+    Pad rootA `tab	here`,
+    x_y_z metadata,
+    zchar[255] x_y_z `doc`,
+    metadata i8i8,
+    uint8x leftPad `say ""hi""`,
+    int32 charz `" ++ [28040; 24687; 31867; 22411]%N ++ runes_of_ascii "`,
+}
+
+packet len {
+    char[255] f32a @calculatedFrom(""a	b"") `// not a comment`,
+    f64 u8x,
+    options1 {
+        string charz `u8 x,`,
+        string_ @calculatedFrom(""a	b""),
+        repeat falsey {
+            a1 `it's`,
+            stringy @lengthOf(Foo),
+            repeat zchar[10] Logon `line1
+            line2`,
+            uint16 repeatCount @lengthOf(options1) `doc`,
+        },
+        repeat u packetx,
+    },
+    falsey x_y_z,
+    char[] matchKey `u8 x,`,
+}
+
+packet float {
+    @lengthOf(Foo)
+    u16 a1 `crlf
+    line`,
+    // `tick` ""quote"" 'q'
+    @leftPad()
+    @lengthOf(string_)
+    match asx as lengthOf {
+        """" : f32a,
+    },
+    roots {
+        f32 A `a\`,
+        i8 trueish @lengthOf(rootA),
+    },
+    options1 @lengthOf(_x),/// triple
+    @lengthOf(asx)
+    charz,
+    zchar[10] a1 @calculatedFrom(""// no comment"") `say ""hi""`,//x
+    uint16 x @calculatedFrom(""a\\""),
+}")).
+Eval vm_compute in ("<<<M1467>>>" ++ check (runes_of_ascii "  options
+
+    { StringPrefixLenType 
+= u8
+    ;
+
+ArrayPrefixLenType
+=	u32 ;
+FixedStringPadFromLeft 
+=false
+
+; 
+FixedStringPadChar
+= ' ';
+
+} packet
+Party
+	{ repeat i16 Qty,
+repeat
+string	Tail
+
+    ,i8
+
+OrderId , i8  msgKind, }  packet Ack
+
+{	Party
+
+    , 
+repeat
+InRef20  {
+
+    Party
+	,int8 
+tag7
+,char[5 ]
+
+    OrderId,  zchar[
+7
+]Tail
+
+    ,
+    char[]count 
+, InPrice45{
+
+Party
+
+,char[  1
+    ] Px,}  , } 
+,char[ 12	]
+
+price , 
+int8
+    sym
+
+,
+}
+packet Reject
+{repeat
+    InPrice47
+	{Party
+,
+	}
+	,
+	zchar[ 
+4
+	]
+    x  ,repeat Ack
+    , zchar[2]Ref
+
+    ,
+	repeat 
+Party , }  packet
+    Cancel{
+Reject ,	repeat
+string
+    f1 ,
+uint16
+OrderId,
+    u8
+Acct
+,
+	int8
+msgKind ,  }
+	root
+	packet  Fill { u8
+    count
+	, 
+char[]tag7	,
+zchar[
+7 
+]
+
+    Acct , u32 OrderId ,
+
+    u32 
+Note  @lengthOf( Body )
+
+,match  OrderId as
+	Body {
+106 :Cancel 
+, 196  :
+Reject,
+
+    74:
+    Party,
+75: Ack ,
+    } ,}
+")).
+Eval vm_compute in ("<<<M1489>>>" ++ check (runes_of_ascii "options {
+    LittleEndian = true;
+    StringPrefixLenType = u64;
+    ArrayPrefixLenType = u8;
+    FixedStringPadChar = '0';
+}
+
+packet Reject {
+    i32 Ref,
+    repeat f64 OrderId,
+    repeat InNote12 {
+        u8 pad0,
+    },
+    @leftPad(' ')
+    char[6] count,
+}
+
+packet Logout {
+    zchar[6] Tail,
+    repeat string venue,
+}
+
+packet Cancel {
+    u64 count,
+    repeat char[5] lastPx,
+    i64 Tail,
+    repeat InF140 {
+        repeat Logout,
+        repeat Reject,
+    },
+}
 
 root packet Trade {
-    // c38
-    repeat Heartbeat,
-    float32 OrderId,// c44
-    i64 Acct,// c47a
-    // c47b
-    u16 Qty,// c50
-    u16 clOrdID,// c53a
-    // c53b
-    match clOrdID as Body {
-        // c58
-        131 : Heartbeat,
-        // c62a
-        // c62b
+    repeat InMsgkind39 {
+        repeat Reject,
+        char[4] Px,
     },
-    // c64
-    u16 sym @calculatedFrom(""CRC32""),
-    // c70
+    string Acct,
+    uint16 price,
+    f32 OrderId,
+    u16 x,
+    u16 clOrdID @lengthOf(Body),
+    match x as Body {
+        178 : Logout,
+        13 : Cancel,
+        174 : Reject,
+    },
+    u16 Flags @calculatedFrom(""CR\
+        C32""),
 }")).
-Eval vm_compute in ("<<<M926>>>" ++ check (runes_of_ascii "
-packet T {
-@calculatedFrom(""\" ++ [233]%N ++ runes_of_ascii """ )
-    string// a // b
-f32a ,repeat f32
-    falsey , /// triple
-@leftPad	('0' )
-match // packet A { u8 x, }
-repeatCount as
-repeatCount
-    {
-    ""a	b"" : body
-    , } ,
-x_y_z @lengthOf(
-trueish) // `tick` ""quote"" 'q'
-,f64 crc , @calculatedFrom( //	t
-""x y"")@tag( 0 // " ++ [128512]%N ++ runes_of_ascii " emoji
-)
-@tag( 65535 )
-int16 u128 @lengthOf( string_// a // b
-)`" ++ [233]%N ++ runes_of_ascii "` , @calculatedFrom(
-    ""\n"" ) char[0123456789 ]Foo@calculatedFrom(
-""CRC32"" ) ,@calculatedFrom( ""a\\"" )
-match
-    T
-    as msg_type
-{
-    [ 65535,""x y""
-,
-3, 255
-,
-    0	] :
-T,[// trailing space 
-""CRC32"" , ""1""
-    //	t
-    , 3 , 10 , 65535 ]: u //	t
-, 4294967296:	a1 ,
-},}")).
-Eval vm_compute in ("<<<M597>>>" ++ check (runes_of_ascii "  options{} root packet A
-{ @rightPad
-(
-) @lengthOf(u128 ) @calculatedFrom(
-    ""\" ++ [233]%N ++ runes_of_ascii """ ) repeat u {string body
-,
-zchar @lengthOf( roots
-)// " ++ [27880; 37322]%N ++ runes_of_ascii "
-,
-// @lengthOf(
-// @lengthOf(
-uint64
-Pad,// `tick` ""quote"" 'q'
-repeat metadata
-, } ,@tag(3 )	Pad
-@calculatedFrom( ""a\""b""
-    ) `two words` , @leftPad ( '\x00' ) T x`crlf
-line` ,
-    match BodyLength as crc
-{	[  007 ]
-:
-    uint8x,
-00 :u
-""a\""b"" :
-    tag , 00 :	options1 //	t
-, ""\" ++ [233]%N ++ runes_of_ascii """ :trueish	,[  65535 , ""x y"" ,
-"""" ,
-// packet A { u8 x, }
-// @lengthOf(
-3 ] : float,
-} ,} options{ x_y_z // " ++ [128512]%N ++ runes_of_ascii " emoji
-=
-    42
-    //
-    }
-    options {
-zchar
-    = false /// triple
-; }
-")).
-Eval vm_compute in ("<<<M524>>>" ++ check (runes_of_ascii "options {
-tag = ""it's""
-//	t
-// packet A { u8 x, }
-;
-int  = zchar[ 00
-] ; x_y_z =""a	b"" ;  packetx =' '
-    ;}packet
-rootA {  uint8x @calculatedFrom( ""CRC32""
-) ,// " ++ [27880; 37322]%N ++ runes_of_ascii "
-u // `tick` ""quote"" 'q'
-{
-repeat
-string repeatCount
-    `line1
-line2`,
-    repeat Logon{ f32a @lengthOf( roots), Packet {int32
-Z9_ `u8 x,` ,  } , Packet Packet , } , repeat
-// " ++ [128512]%N ++ runes_of_ascii " emoji
-// trailing space 
-repeatCount zchar, } ,
-    a1 @calculatedFrom(""abc""
-) // `tick` ""quote"" 'q'
-,}// `tick` ""quote"" 'q'
-root
-packet crc {
-@tag(00	)
-    char[7
-    // `tick` ""quote"" 'q'
-    ]asx @lengthOf( T ) `` ,
-}
-")).
-Eval vm_compute in ("<<<M3931>>>" ++ check (runes_of_ascii "
-MetaData
-
-matchKey
-
-{ } 
-packet a1  {
-
-    char[]
-int 
-`" ++ [28040; 24687; 31867; 22411]%N ++ runes_of_ascii "` 
-, 
-msg_type @lengthOf(  As 	 // trailing space 
-    ),	@leftPad
-
-( 	 //	t
-
-)	string
-roots `// not a comment`, @lengthOf(
-
-    Logon )
-
-string
-
-    Logon @lengthOf(
-crc
-	)  ,
-	msg_type
-    {
-
-repeat 
-  //x
-    //	t
-
-	u64 a1
-, } // a // b
-  ,
-char[
-	65535	] 	 /// triple
-
-	u
-@calculatedFrom(  /// triple
-
-  ""it's""
-
-) ,
-f32a
-len  , 
-} root
-
-packet
-    asx	{ @leftPad 
-(  ' ')  // c
-
-uint16  uint8x  @lengthOf(
-
-charz
-// c
-	// `tick` ""quote"" 'q'
-    )`two words`,	}")).
-Eval vm_compute in ("<<<M649>>>" ++ check (runes_of_ascii "options //	t
-{ // " ++ [128512]%N ++ runes_of_ascii " emoji
-Logon =
-' '; }	packet
-x_y_z {
-// a // b
-// `tick` ""quote"" 'q'
-@lengthOf( calculatedFrom )//
-match asx as len{ [""\" ++ [233]%N ++ runes_of_ascii """, 255
-    , ""x y""
-    , 7	,
-""" ++ [233]%N ++ runes_of_ascii "t" ++ [233]%N ++ runes_of_ascii """  , ""\" ++ [233]%N ++ runes_of_ascii """ ]:	tag, ""packet"" : o
-[ 7 , """ ++ [28040; 24687]%N ++ runes_of_ascii """  , """ ++ [28040; 24687]%N ++ runes_of_ascii """
-,
-    /// triple
-    ""CRC32"" ]	: _x,
-/// triple
-// @lengthOf(
-[3 // " ++ [128512]%N ++ runes_of_ascii " emoji
-, 007// a // b
-, ""packet"" , // " ++ [27880; 37322]%N ++ runes_of_ascii "
-"""" ,
-""CRC32"",0123456789
-    //
-    ] : lengthOf
-    // " ++ [27880; 37322]%N ++ runes_of_ascii "
-    , 7 : crc // @lengthOf(
-, 42	://
-zchar,  },int, } MetaData A {
-    BodyLength Foo `// not a comment` ,}
-")).
-Eval vm_compute in ("<<<M747>>>" ++ check (runes_of_ascii "// a // b
-MetaData crc { uint8x len ,
-string
-BodyLength ,
-    asx body
-    // packet A { u8 x, }
-    `" ++ [233]%N ++ runes_of_ascii "` ,
-calculatedFrom i8i8  , } packet Header {
-@tag( 3
-    )int64  uint8x ,  repeat lengthOf { match x as body { """ ++ [128512]%N ++ runes_of_ascii """//	t
-: trueish
-3
-: MetaDataX
-, [ ""it's"" , """" ]
-:	o,	""CRC32""
-: i8i8,} // trailing space 
-,}
-    ,
-i64
-lengthOf `u8 x,` ,
-}packet pack{ @rightPad// trailing space 
-( )	@tag( 255
-)repeat string leftPad
-`crlf
-line` , } options{}  packet Packet { lengthOf
-    ,	}
-")).
-Eval vm_compute in ("<<<M211>>>" ++ check (runes_of_ascii "packet leftPad
-    {  BodyLength
-{ // a // b
-rootA {
-char[ 00]
-leftPad,
-    // trailing space 
-    tag // " ++ [27880; 37322]%N ++ runes_of_ascii "
-@calculatedFrom( ""abc""
-    // " ++ [128512]%N ++ runes_of_ascii " emoji
-    ) , char[	42 ] // c
-len ,
-string MetaDataX  ,}, match Z9_ as A { ""1""  : x, ""packet"" // trailing space 
-: lengthOf	} , i64
-    // trailing space 
-    chars @lengthOf(	msg_type
-    ) `
-`
-, },zchar[ 3 //
-]  u128
-    @lengthOf(//	t
-packetx
-) , @leftPad ( '\x00'
-)char[] chars @calculatedFrom( ""`tick`"" ) //
-, }
-")).
-Eval vm_compute in ("<<<M3996>>>" ++ check (runes_of_ascii "options {
-}// " ++ [27880; 37322]%N ++ runes_of_ascii "
-
-root packet leftPad {
-    match T as u8x {
-        // trailing space 
-        4294967296 : Logon,
-        ""1"" : i8i8,
-        0123456789 : tag,
-        ""a\""b"" : options1,
-        4294967296 : T,
-    },
-    repeat matchKey {
-        repeat string rootA,
-        repeat int64 zchar `
-                `,
-    },
-    i32 x_y_z,
-    zchar[007] packetx `it's`,
-    // a // b
-    // `tick` ""quote"" 'q'
-    repeat zchar[255] falsey,
-}// " ++ [27880; 37322]%N)).
-Eval vm_compute in ("<<<M4059>>>" ++ check (runes_of_ascii "
-packet
-Frame {  u8
-HK ,
-u8
-
-    BK
-	,
-u8
-TK
-
-,
-match	HK
-
-as
-
-Hdr	{1
-:
-	HdrA
-
-    ,
-2
-    : 
-HdrB , 
-}
-
-,
-	match
-BK
-	as
-
-Body { 
-1
-:
-BodyA
-
-    ,2:  BodyB
-
-    ,
-
-    }
-, match
-TK as
-
-Trl { 1  : TrlA 
-,  },  }	packet  HdrA {u8	a
-    ,
-	}
-packet
-
-    HdrB
-{u16
-	b
-
-    ,
-    } packet	BodyA
-	{
-u32
-c
-,  }
-
-packet BodyB	{
-
-u64
-
-d ,
-    }
-
-    packet  TrlA	{ u8
-
-e, }
-root 
-packet
-	Msg{  Frame, 
-u8 x
-	,  }
-")).
-Eval vm_compute in ("<<<M599>>>" ++ check (runes_of_ascii "
-packet i64_ // `tick` ""quote"" 'q'
-{ uint8x @calculatedFrom(""abc"" // " ++ [27880; 37322]%N ++ runes_of_ascii "
-) , char stringy ,@lengthOf( i8i8
-) match BodyLength
-as o{""" ++ [233]%N ++ runes_of_ascii "t" ++ [233]%N ++ runes_of_ascii """ :	Z9_
-,
-    ""x y""
-    : stringy , } ,@rightPad
-    /// triple
-    ('0'  )
-repeat T
-    {  repeatCount
-    , uint16
-As @lengthOf( // `tick` ""quote"" 'q'
-Packet )
-    ,	repeat	len
-, }, @lengthOf( packetx )
-Pad , @calculatedFrom(""" ++ [28040; 24687]%N ++ runes_of_ascii """
-    ) // @lengthOf(
-o ,zchar[ 00 ] rootA
-,
-}
-")).
-Eval vm_compute in ("<<<M300>>>" ++ check (runes_of_ascii "
-root
-    packet pack
-{
-repeat u8x
-    `a\`
-    , char[ 3 ]MetaDataX `two words` ,
-    @leftPad ( ' '  ) zchar[ 4294967296 ]crc
-@calculatedFrom( """ ++ [128512]%N ++ runes_of_ascii """
-)
-    // c
-    ,  @lengthOf(
-    // " ++ [27880; 37322]%N ++ runes_of_ascii "
-    options1 )
-// " ++ [128512]%N ++ runes_of_ascii " emoji
-// " ++ [27880; 37322]%N ++ runes_of_ascii "
-@calculatedFrom( ""x y"" )repeat u{ repeat	x_y_z options1
-`two words` , zchar[3	]
-charz ,
-    Logon { u8	pack ,
-repeat zchar , i8i8{ repeat
-    u8
-    matchKey , }, } ,
-}, }")).
-Eval vm_compute in ("<<<M1285>>>" ++ check (runes_of_ascii "
-options { A
-= ""it's""
-} options { }packet	pack {
-int16 zchar ,
-    @tag( 007 )@lengthOf( Pad
-)// trailing space 
-@leftPad ( ' '
-)match stringy as body{
-    [255 ,
-42
-, // " ++ [128512]%N ++ runes_of_ascii " emoji
-1
-    // trailing space 
-    , 00 ,
-    """",
-10
-, ""{,}"" ] :
-    repeatCount
-, [ 1 ] : x_y_z ,
-    ""`tick`""
-:
-packetx, 7 : u128,
-    } // `tick` ""quote"" 'q'
-,u32 body@lengthOf(	stringy )
-, } 	 ")).
-Eval vm_compute in ("<<<M431>>>" ++ check (runes_of_ascii "packet roots{char[  007 ]
-len ,  repeat char[]
-// c
-/// triple
-Pad
-    `" ++ [233]%N ++ runes_of_ascii "` , //x
-repeat rootA {
-match roots as falsey{
-    ""a	b""  : f32a ,}	,string chars
-    ,
-match rootA as lengthOf{ 10 // " ++ [27880; 37322]%N ++ runes_of_ascii "
-: Foo ,  ""abc"" : A ,
-    65535:u8x ,
-    [ 255
-,
-""CRC32""
-] :
-len } //x
-, }
-// " ++ [27880; 37322]%N ++ runes_of_ascii "
-// @lengthOf(
-,} MetaData calculatedFrom
-    /// triple
-    {matchKey zchar`a\`,
-}
-")).
-Eval vm_compute in ("<<<M3922>>>" ++ check (runes_of_ascii "
-root
-    // trailing space 
-    packet
-
-    //	t
-//
-	trueish	{ @tag(
-
-0
-
-)@lengthOf( float )
-
-    @lengthOf(
-
-    trueish
-
-)  repeat
-
-    uint8
-
-    Logon
-    `line1
-line2`
-
-,char[]
-	body
-@lengthOf( A
-	)
-	`
-`
-,
-	// " ++ [128512]%N ++ runes_of_ascii " emoji
-    	// c
-    repeat 
-
-// packet A { u8 x, }
-	char[ 00
-
-    ]
-MetaDataX ,@leftPad(
-)
-repeat	int8 pack
-
-,
-
-}
-
-")).
-Eval vm_compute in ("<<<M3212>>>" ++ check (runes_of_ascii "// top
-packet
-    // c0
-Logon
-    // c1
-{
-    // c2
-@tag(
-    // c3
-42
-    // c4
-)
-    // c5
-@rightPad
-    // c6
-(
-    // c7
-' '
-    // c8
-)
-    // c9
-@leftPad
-    // c10
-(
-    // c11
-)
-    // c12
-repeat
-    // c13
-trueish
-    // c14
-{
-    // c15
-string
-    // c16
-T
-    // c17
-,
-    // c18
-}
-    // c19
-,
-    // c20
-}
-    // c21
-")).
-Eval vm_compute in ("<<<M219>>>" ++ check (runes_of_ascii "root packet x {string
-packetx
+Eval vm_compute in ("<<<M272>>>" ++ check (runes_of_ascii "root packet Header {
+int16 repeatCount ,
+    } //x
+root packet len {  match i8i8
+    as// c
+roots{ [""abc"" , 255 ]
+    : Pad, }  ,	@rightPad ( '\x00' ) @lengthOf(	leftPad
+)float32 As `" ++ [28040; 24687; 31867; 22411]%N ++ runes_of_ascii "` , @calculatedFrom( ""1""
+) zchar[  007
+] // " ++ [128512]%N ++ runes_of_ascii " emoji
+stringy @lengthOf( f32a ) ,}
     // @lengthOf(
-    `{ , }`, char stringy`// not a comment`
-, match charz as
-u128
-{ """ ++ [128512]%N ++ runes_of_ascii """
-: _x,0 : options1 // packet A { u8 x, }
-42
-    :trueish , [
-// @lengthOf(
-// `tick` ""quote"" 'q'
-""it's"" , 00
-, """ ++ [28040; 24687]%N ++ runes_of_ascii """  , ""\n""
-    // trailing space 
-    , 255 , 00 ]
-: lengthOf ,
-    1:len
-    , },}
-")).
-Eval vm_compute in ("<<<M329>>>" ++ check (runes_of_ascii "
-options{MetaDataX =
-    char }packet packetx {match // packet A { u8 x, }
-string_
-    as trueish {""a\""b"" : crc // trailing space 
-,
-1 : calculatedFrom [
-1 ]  : u8x	, }
-, }options {}
-    MetaData Z9_
-    // " ++ [128512]%N ++ runes_of_ascii " emoji
-    {
-    string MetaDataX `` // trailing space 
-, }options{ o= '\x00';// trailing space 
-}")).
-Eval vm_compute in ("<<<M3485>>>" ++ check (runes_of_ascii "packet
-    A 
-{	u8
-a
-	,
-    }
-packet B{u16 b , } packet
-	C{u32 c , 
-}
-root  packet M{u16
-
-    Kc , 
-u16 Kb ,  u16 Ka
-
-,
-
-    match Kc
-as
-
-X{ 9
+    packet  BodyLength{
+@lengthOf( trueish ) char[
+7 ]
+    falsey
+@calculatedFrom( """ ++ [128512]%N ++ runes_of_ascii """ )	, @calculatedFrom(""a\""b""
+) x`// not a comment` , @lengthOf(chars ) char[ 65535 ]leftPad
+@calculatedFrom(""" ++ [128512]%N ++ runes_of_ascii """
+) , trueish ,
+string lengthOf
+    , }root
+    packet
+_x
+{ match _x as
+uint8x
+{// c
+[""`tick`"" ,
+""packet""] :
+u, [// `tick` ""quote"" 'q'
+007 , ""abc""
+,255
+    , ""\n"" , 7 , // c
+""a	b"" , 0
+    ]
     :
-
-    A, 10
-	: 
-B
-
-,	}
-
-, match	Kb 
-as 
-Y	{2 :
-C
-    ,
-
-    1: A 
-,
-    }
-
-,
-
-    match 
-Ka
-as Z{  1
-    :
-	B
-, 
-} 
-, A, B,
-C,
-    }
-
-")).
-Eval vm_compute in ("<<<M306>>>" ++ check (runes_of_ascii "
-packet charz
-    { @lengthOf( Pad
-) match rootA as	string_ { [ 0123456789 ]
-// a // b
-//
-: repeatCount [
-    00 ,""it's""
-] : T ,
-    0 // packet A { u8 x, }
-: stringy,
-    4294967296 :
-msg_type ,/// triple
-} ,} packet lengthOf
-{
-@tag( 7 ) char[
-    255 ]
-float@calculatedFrom( ""packet"" ),  }
-")).
-Eval vm_compute in ("<<<M1511>>>" ++ check (runes_of_ascii "root packet Foo // " ++ [128512]%N ++ runes_of_ascii " emoji
-{ } options {
-    // a // b
-    tag // `tick` ""quote"" 'q'
-= //	t
-""""
-    ; u8x = zchar[0  ] }
-MetaData
-    int {10 zchar[ ]
-lengthOf	`` , i64 u8x`// not a comment` ,MetaDataX pack// `tick` ""quote"" 'q'
-`crlf
-line`
-, Logon charz `crlf
-line`
-    ,
-    // a // b
-    }
-")).
-Eval vm_compute in ("<<<M1526>>>" ++ check (runes_of_ascii "root packet Foo // " ++ [128512]%N ++ runes_of_ascii " emoji
-{ } options {
-    // a // b
-    tag // `tick` ""quote"" 'q'
-= //	t
-""""
-    ; u8x = zchar[0  ] }
-MetaData
-    int {zchar[ 10]
-``	lengthOf , i64 u8x`// not a comment` ,MetaDataX pack// `tick` ""quote"" 'q'
-`crlf
-line`
-, Logon charz `crlf
-line`
-    ,
-    // a // b
-    }
-")).
-Eval vm_compute in ("<<<M1519>>>" ++ check (runes_of_ascii "root packet Foo // " ++ [128512]%N ++ runes_of_ascii " emoji
-{ } options {
-    // a // b
-    tag // `tick` ""quote"" 'q'
-= //	t
-""""
-    ; u8x = zchar[0  ] }
-MetaData
-    int {zchar[ 10
-lengthOf	`` , i64 u8x`// not a comment` ,MetaDataX pack// `tick` ""quote"" 'q'
-`crlf
-line`
-, Logon charz `crlf
-line`
-    ,
-    // a // b
-    }
-")).
-Eval vm_compute in ("<<<M1497>>>" ++ check (runes_of_ascii "root packet Foo // " ++ [128512]%N ++ runes_of_ascii " emoji
-{ } options {
-    // a // b
-    tag // `tick` ""quote"" 'q'
-= //	t
-""""
-    ; u8x = zchar[0  ] }
-int8
-    int {zchar[ 10]
-lengthOf	`` , i64 u8x`// not a comment` ,MetaDataX pack// `tick` ""quote"" 'q'
-`crlf
-line`
-, Logon charz `crlf
-line`
-    ,
-    // a // b
-    }
-")).
-Eval vm_compute in ("<<<M935>>>" ++ check (runes_of_ascii "options { Packet = '\x00' // " ++ [27880; 37322]%N ++ runes_of_ascii "
-i64_	=3;
-falsey//
-=
-    00
-    ; x_y_z =
-0 // a // b
-; Header =// " ++ [128512]%N ++ runes_of_ascii " emoji
-""a\""b""
-}  MetaData
-    f32a {
-    } options	{ metadata = ""it's""
-    ; } options
-    {}options { calculatedFrom = int32 ;
-    len	= """ ++ [128512]%N ++ runes_of_ascii """
-_x = ""it's""BodyLength= 0123456789 }
-")).
-Eval vm_compute in ("<<<M4481>>>" ++ check (runes_of_ascii "// top
-
-packet 	 // c0a
-
-// c0b
-
-	B// c1a
-  // c1b
-	{u8 	 // c3a
-    	// c3b
-  a // c4
-		,
-    string 
-      // c6
-
-  s ,// c8
-}	// c9
-  root 
-// c10
-packet  // c11
-P	// c12
-
-{ u16 L @lengthOf(	B ),// c19
-	B 	 // c20a
-	  // c20b
-  , u8
-
-    // c22
-
-	t ,
-}  // c25
-")).
-Eval vm_compute in ("<<<M658>>>" ++ check (runes_of_ascii "options  {  matchKey =
-    007;pack
-    = false
-; // `tick` ""quote"" 'q'
-float =	int8 options1 = char[]x_y_z
-    =
-    //
-    """" ; } options
-{ Header = // " ++ [128512]%N ++ runes_of_ascii " emoji
-float64//
-;pack // `tick` ""quote"" 'q'
-= float32
-; string_
-    = char[ 42 ] Logon= 00	;}
-//	t
-")).
-Eval vm_compute in ("<<<M316>>>" ++ check (runes_of_ascii "packet  crc {calculatedFrom
-    {string_ u
-,
-rootA
-    calculatedFrom , } // packet A { u8 x, }
-,
-    @lengthOf( len
-    )match //x
-roots
-    /// triple
-    as x{""// no comment""
+    // c
+    Foo	[ 007 , """ ++ [233]%N ++ runes_of_ascii "t" ++ [233]%N ++ runes_of_ascii """ , 0 ]
 :
-    msg_type
-    ,
-7 : calculatedFrom ,} ,} packet zchar
-{
-    }
-
+x_y_z //	t
+} ,
+}
 ")).
-Eval vm_compute in ("<<<M626>>>" ++ check (runes_of_ascii "packet T {u8 Packet, @leftPad ( ' ' // packet A { u8 x, }
-)
-    // " ++ [128512]%N ++ runes_of_ascii " emoji
-    match o as BodyLength
-    // `tick` ""quote"" 'q'
-    {
-    [ ""it's""
-]: charz
-0 :
-T
-,
-""`tick`"" : stringy }  , } packet stringy {	_x leftPad `say ""hi""`
-    , }
-")).
-Eval vm_compute in ("<<<M4486>>>" ++ check (runes_of_ascii "MetaData packetx {
-    packetx i64_ `say ""hi""`,
-}
-
-options {
-}
-
-packet string_ {
-    @lengthOf(repeatCount)
-    len {
-        zchar[10] u128,
-        f32 falsey `say ""hi""`,
-        uint16 f32a `crlf
-        line`,
-    },
-}
-// " ++ [27880; 37322]%N)).
-Eval vm_compute in ("<<<M1380>>>" ++ check (runes_of_ascii "
-packet // `tick` ""quote"" 'q'
-Logon {
-@lengthOf( a1
-)match
-    x_y_z as asx {	[
+Eval vm_compute in ("<<<M21>>>" ++ check (runes_of_ascii "packet	Z9_ {repeat options1 {
+    repeat i16 o
+// a // b
 /// triple
+`two words`
+, match charz
+as o { [ 4294967296 ,
+""// no comment""	]:
+// `tick` ""quote"" 'q'
+// packet A { u8 x, }
+u
+    , } , match float
+    as
+    tag
+{ [
+00] : leftPad ,	[
+""" ++ [233]%N ++ runes_of_ascii "t" ++ [233]%N ++ runes_of_ascii """ ,
+""\n""
+, 0 //
+, ""CRC32"" ,
+    1
+    , """ ++ [28040; 24687]%N ++ runes_of_ascii """ , 255
+    , 1]
+: options1, 255	: x  , 00 : x ,
+    } , repeat
+string asx `u8 x,` , } ,
+// " ++ [27880; 37322]%N ++ runes_of_ascii "
+// a // b
+zchar[ 3	] falsey ,}
+    packet u
+{
 //x
-""packet"" //
-, """ ++ [128512]%N ++ runes_of_ascii """ // packet A { u8 x, }
-,// `tick` ""quote"" 'q'
-""packet"" , 4294967296 ,""" ++ [28040; 24687]%N ++ runes_of_ascii """ ] : A ,
-3 : Packet ,
-//
+// trailing space 
+zchar[ 0 ]asx ,
+    @tag(
+    10
+)
+    @rightPad (' ' ) @rightPad
+    //x
+    ( '\x00') Logon
+    @calculatedFrom( """ ++ [128512]%N ++ runes_of_ascii """ ) , repeat char[255 ] calculatedFrom	, uint16 lengthOf,
+    }root /// triple
+packet  pack { }
+")).
+Eval vm_compute in ("<<<M1401>>>" ++ check (runes_of_ascii "options { // c1a
+  // c1b
+FixedStringPadChar = // c3
+'0'
+    // c4
+; // c5
+} packet
+    // c7
+Q { zchar[ // c10a
+  // c10b
+4 // c11
+] // c12a
+  // c12b
+z ,
+    // c14
+@rightPad // c15
+( // c16
+'\x00' )
+    // c18
+char[ // c19a
+  // c19b
+3 ] // c21
+n
+    // c22
+,
+    // c23
+char[
+    // c24
+5
+    // c25
+] // c26a
+  // c26b
+d , // c28a
+  // c28b
+} // c29a
+  // c29b
+root // c30
+packet // c31
+R // c32
+{ // c33a
+  // c33b
+Q // c34a
+  // c34b
+, zchar[
+    // c36
+8
+    // c37
+] // c38
+top
+    // c39
+, // c40
+repeat // c41
+zchar[ // c42
+2 ] // c44
+zs // c45
+,
+    // c46
+} ")).
+Eval vm_compute in ("<<<M1174>>>" ++ check (runes_of_ascii "// top
+MetaData // c0
+x_y_z // c1
+{ // c2
+char // c3
+body // c4
+, // c5
+f64 // c6
+i8i8 // c7
+`two words` // c8
+, // c9
+body // c10
+body // c11
+`" ++ [28040; 24687; 31867; 22411]%N ++ runes_of_ascii "` // c12
+, // c13
+} // c14
+root // c15
+packet // c16
+chars // c17
+{ // c18
+@lengthOf( // c19
+i64_ // c20
+) // c21
+chars // c22
+, // c23
+i8i8 // c24
+{ // c25
+falsey // c26
+@lengthOf( // c27
+stringy // c28
+) // c29
+`doc` // c30
+, // c31
+} // c32
+, // c33
+x // c34
+@lengthOf( // c35
+A // c36
+) // c37
+`crlf
+line` // c38
+, // c39
+} // c40
+")).
+Eval vm_compute in ("<<<M160>>>" ++ check (runes_of_ascii "root packet o
+    { }	packet T{ zchar[ 4294967296
+]asx `say ""hi""` ,} MetaData f32a{f64 MetaDataX  `say ""hi""`
+    // packet A { u8 x, }
+    ,x_y_z
+    rootA`doc`
+, //	t
+u32
+repeatCount
+    /// triple
+    ,
+string T
+, u8x u`doc` ,} options {x_y_z
+    = 0	} // packet A { u8 x, }
+root packet// c
+MetaDataX { @calculatedFrom( ""abc""
+) @calculatedFrom(
+    """ ++ [128512]%N ++ runes_of_ascii """ ) @tag( 3
+) charz@lengthOf(
+Packet )
+    `line1
+line2` ,	} /// triple")).
+Eval vm_compute in ("<<<M258>>>" ++ check (runes_of_ascii "MetaData stringy
+    //x
+    { A MetaDataX ,}
+    packet  x	{ @calculatedFrom( /// triple
+"""")
+char[] body``
+/// triple
+// c
+, matchKey @lengthOf( uint8x ) , } // packet A { u8 x, }
+options{	T
+// `tick` ""quote"" 'q'
+// trailing space 
+=true
+; o// packet A { u8 x, }
+=
+// c
 //	t
-},}")).
-Eval vm_compute in ("<<<M3742>>>" ++ check (runes_of_ascii "MetaData Packet {
+'0'	; asx
+    //
+    = 4294967296
+x= ""CRC32""o =
+zchar[ 7 ] } options { /// triple
+As =false ; } //x")).
+Eval vm_compute in ("<<<M122>>>" ++ check (runes_of_ascii "root packet u128{} root packet
+charz {// packet A { u8 x, }
+@tag( 7
+    )MetaDataX	, _x { uint32
+As,
+    charz ,}	,
+len {  int64	u128 , repeat falsey
+{x_y_z@lengthOf(
+asx )
+//	t
+// c
+, // c
 }
+,repeatCount
+    {	metadata
+@calculatedFrom( ""\n""
+) `doc` , Logon Foo
+// trailing space 
+// " ++ [128512]%N ++ runes_of_ascii " emoji
+,} // " ++ [27880; 37322]%N ++ runes_of_ascii "
+,
+float  rootA , }
+, }
+// a // b
+")).
+Eval vm_compute in ("<<<M212>>>" ++ check (runes_of_ascii "/// triple
+packet A
+{@calculatedFrom(""a\""b"" ) Logon`u8 x,` , metadata BodyLength
+, } // trailing space 
+packet	As{ @rightPad (
+) repeat
+uint8
+chars , i64
+/// triple
+// a // b
+zchar `say ""hi""` ,@rightPad
+( '\x00' )
+@leftPad (
+'0')@lengthOf( int
+) char[
+    65535  ] rootA , } root packet trueish
+{}
+")).
+Eval vm_compute in ("<<<M1719>>>" ++ check (runes_of_ascii "// top
+packet trueish {
+    // c2
+    repeat u32 MetaDataX `doc`,// c7
+    Header {
+        // c9
+        packetx o `u8 x,`,// c13
+    },// c15
+    @leftPad('\x00')
+    // c19
+    repeat char[0123456789] repeatCount,// c25
+}// c26
 
-packet asx {
-    @lengthOf(asx)
-    falsey `crlf
+packet Packet {
+    // c29
+}// c30")).
+Eval vm_compute in ("<<<M1991>>>" ++ check (runes_of_ascii "
+packet
+	x 
+{	char	matchKey  @lengthOf(
+x_y_z) 	 //
+  ,	}
+    packet  trueish{ @tag(
+    255
+	)
+
+char
+	calculatedFrom
+
+@lengthOf(
+
+Header )
+    ,
+	}	MetaData
+	options1 
+// trailing space 
+	{
+	}  packet
+MetaDataX	{ } packet trueish  { } ")).
+Eval vm_compute in ("<<<M1701>>>" ++ check (runes_of_ascii "packet float {
+    f64 float `u8 x,`,
+    // " ++ [27880; 37322]%N ++ runes_of_ascii "
+    //	t
+    @tag(1)
+    len tag `crlf
     line`,
 }
 
-packet x {
-    uint32 rootA,
-    u32 options1 `say ""hi""`,
-    @tag(7)
-    // packet A { ''u8 x, }
-    msg_type @lengthOf(stringy),
-}")).
-Eval vm_compute in ("<<<M2381>>>" ++ check (runes_of_ascii "MetaData Packet { }packet	asx  { @lengthOf( asx) falsey`crlf
-line`
-,
-    }
-    packet x	{uint32// @lengthOf(
-rootA	,u32 options1 `say ""hi""` , @tag( 7
-    )// packet A { u8 x, }
-""msg_type @lengthOf(
-stringy	)	, }
-
-")).
-Eval vm_compute in ("<<<M2322>>>" ++ check (runes_of_ascii "MetaData Packet { }packet	asx  { @lengthOf( asx) falsey`crlf
-line`
-,
-    }
-    packet x	{uint32// @lengthOf(
-rootA	,u32 options1 , `say ""hi""` @tag( 7
-    )// packet A { u8 x, }
-msg_type @lengthOf(
-stringy	)	, }
-
-")).
-Eval vm_compute in ("<<<M2395>>>" ++ check (runes_of_ascii "MetaData Packet { }packet	" ++ [21517; 23383]%N ++ runes_of_ascii "  { @lengthOf( asx) falsey`crlf
-line`
-,
-    }
-    packet x	{uint32// @lengthOf(
-rootA	,u32 options1 `say ""hi""` , @tag( 7
-    )// packet A { u8 x, }
-msg_type @lengthOf(
-stringy	)	, }
-
-")).
-Eval vm_compute in ("<<<M2318>>>" ++ check (runes_of_ascii "MetaData Packet { }packet	asx  { @lengthOf( asx) falsey`crlf
-line`
-,
-    }
-    packet x	{uint32// @lengthOf(
-rootA	,u32 """" `say ""hi""` , @tag( 7
-    )// packet A { u8 x, }
-msg_type @lengthOf(
-stringy	)	, }
-
-")).
-Eval vm_compute in ("<<<M728>>>" ++ check (runes_of_ascii "// `tick` ""quote"" 'q'
-options { }	options {Foo =// trailing space 
-'\x00' ; stringy = 65535 ; u= '\x00' Foo = true
-// packet A { u8 x, }
-//
-Foo = // " ++ [27880; 37322]%N ++ runes_of_ascii "
-""abc"" ; } packet MetaDataX
-    { float32 asx , } 	 ")).
-Eval vm_compute in ("<<<M3595>>>" ++ check (runes_of_ascii "options {
-    calculatedFrom
-
-    = 
-      // packet A { u8 x, }
-
-	""" ++ [28040; 24687]%N ++ runes_of_ascii """
-
-    ;
-
-    u=  false	BodyLength
-    = 
-
-    // `tick` ""quote"" 'q'
-    	65535
-; msg_type =
-0
-lengthOf= true;
-    } ")).
-Eval vm_compute in ("<<<M1558>>>" ++ check (runes_of_ascii "root packet Foo // " ++ [128512]%N ++ runes_of_ascii " emoji
-{ } options {
-    // a // b
-    tag // `tick` ""quote"" 'q'
-= //	t
-""""
-    ; u8x = zchar[0  ] }
-MetaData
-    int {zchar[ 10]
-lengthOf	`` , i64 u8x`// not a comment`")).
-Eval vm_compute in ("<<<M1012>>>" ++ check (runes_of_ascii "packet  int
-    { match	roots
-//	t
-// @lengthOf(
-as//	t
-u8x {7 : packetx,
-0
-: As  ""packet"" :
-    // a // b
-    a1
-// " ++ [27880; 37322]%N ++ runes_of_ascii "
-//x
-, ""packet""
-    :
-    float }	,Z9_ @lengthOf( u128
-)
-, }")).
-Eval vm_compute in ("<<<M743>>>" ++ check (runes_of_ascii "MetaData roots { } MetaData
-stringy {
-Logon leftPad// " ++ [27880; 37322]%N ++ runes_of_ascii "
-`crlf
-line`
-,	char[] metadata`{ , }`
-,
-falsey  pack `" ++ [233]%N ++ runes_of_ascii "`,
-    i8 repeatCount// " ++ [27880; 37322]%N ++ runes_of_ascii "
-,} options{
-matchKey =' ' }
-
-")).
-Eval vm_compute in ("<<<M640>>>" ++ check (runes_of_ascii "root  packet calculatedFrom {@rightPad	( )
-    match pack
-as
-repeatCount //
-{ 007 : pack , } ,	}
-options{
-As =	00
-    //	t
-    T
-    = '\x00' ;	pack =
-    00 } // c")).
-Eval vm_compute in ("<<<M115>>>" ++ check (runes_of_ascii "root packet T{ }	MetaData	msg_type { i64_ //x
-i64_,  } root packet
-    // packet A { u8 x, }
-    x_y_z { }  MetaData	crc { o
-zchar`line1
-line2`
-,} packet
-x{ }")).
-Eval vm_compute in ("<<<M3985>>>" ++ check (runes_of_ascii "packet
-A	{ match
-
-k as	n { 
-[
-	""a""  ,  ""bb""
-    ,
-	007	,
-    ""d"" ,
-	""e""  ,
-	66 ,  ""g""
-,  ""h""
-
-,
-    9 ,""j""
-
-    ,
-""k""	,12
-	]
-
-    :	B
-2
-	: C },	} ")).
-Eval vm_compute in ("<<<M4257>>>" ++ check (runes_of_ascii "  options
-
-    { matchKey  = ' ' tag=
-	'\x00'  ; 
-metadata 
-    // `tick` ""quote"" 'q'
-  // @lengthOf(
-  	=string
-;
-	charz
-    =
-65535
-
-; 
+root packet u {
+    o x `it's`,
+    @rightPad()
+    repeat zchar[00] Foo,
+    // trailing space 
 }
 
+root packet string_ {
+}")).
+Eval vm_compute in ("<<<M1848>>>" ++ check (runes_of_ascii "packet T {
+    match Packet as Header {
+        42 : BodyLength,
+        ""// no comment"" : matchKey,
+        ""`tick`"" : crc,
+        [1] : o,
+    },
+}// " ++ [128512]%N ++ runes_of_ascii " emoji
+
+packet As {
+}
+
+options {
+    u128 = ' '
+    body = char[]
+}")).
+Eval vm_compute in ("<<<M493>>>" ++ check (runes_of_ascii "options
+{
+matchKey = 42/// triple
+x='0' ;
+// packet A { u8 x, }
+//
+charz
+=
+// packet A { u8 x, }
+// trailing space 
+true  ; } MetaData BodyLength
+{
+uint8
+pack,zchar[ ]1 float ,  float32 x_y_z `` ,u32
+_x,i16 body  , }
 ")).
-Eval vm_compute in ("<<<M3441>>>" ++ check (runes_of_ascii "
-packet
-B{
-    u8  a
+Eval vm_compute in ("<<<M468>>>" ++ check (runes_of_ascii "options
+{
+matchKey = 42/// triple
+x='0' ;
+// packet A { u8 x, }
+//
+charz
+=
+// packet A { u8 x, }
+// trailing space 
+true  ; } MetaData BodyLength
+uint8
+{
+pack,zchar[ 1]float ,  float32 x_y_z `` ,u32
+_x,i16 body  , }
+")).
+Eval vm_compute in ("<<<M556>>>" ++ check (runes_of_ascii "options
+{
+matchKey = 42/// triple
+x='0' ;
+// packet A { u8 x, }
+//
+charz
+=
+// packet A { u8 x, }
+// trailing space 
+true  ; } MetaData BodyLength
+{
+uint8
+pack,zchar[ 1]float ,  float32 x_y_z `` ,u32
+_x,i16 body   }
+")).
+Eval vm_compute in ("<<<M560>>>" ++ check (runes_of_ascii "options
+{
+matchKey = 42/// triple
+x='0' ;
+// packet A { u8 x, }
+//
+charz
+=
+// packet A { u8 x, }
+// trailing space 
+true  ; } MetaData BodyLength
+{
+uint8
+pack,zchar[ 1]float ,  float32 x_y_z `` ,u32
+_x,i16 body")).
+Eval vm_compute in ("<<<M67>>>" ++ check (runes_of_ascii "MetaData Pad { Z9_
+    // c
+    pack ,u8 asx
+    , i32
+    MetaDataX , int8 // `tick` ""quote"" 'q'
+x_y_z ,u128 f32a, calculatedFrom calculatedFrom
+    `say ""hi""`  ,
+    // trailing space 
+    }
+")).
+Eval vm_compute in ("<<<M1892>>>" ++ check (runes_of_ascii "packet Header //	t
+		{ float32  repeatCount @lengthOf( f32a 
+    /// triple
+  // a // b
+  ),
+} 
+options
+{ 
+As = true
+    ;
+	}packet  Pad{@rightPad
+    (
 
-    ,} root
-    packet
+    ' ')
 
-P {  u8
-K ,
-
-    match  K
-    as
-Body {
-
-    1
-:
-B,}
-, 
-u16
-	L @lengthOf( 
-Body ) ,
-} ")).
-Eval vm_compute in ("<<<M3709>>>" ++ check (runes_of_ascii "packet A {
+    leftPad ,} ")).
+Eval vm_compute in ("<<<M704>>>" ++ check (runes_of_ascii "// c
+packet i64_ {	char[] calculatedFrom , } packet
+trueish  {""a\\""
+@calculatedFrom( ) o { i32 falsey@lengthOf( uint8x ),
+} , } // `tick` ""quote"" 'q'
+options {// c
+Z9_ = ' '//
+}
+")).
+Eval vm_compute in ("<<<M1382>>>" ++ check (runes_of_ascii "packet A {
+    u8 a,
+}
+packet B {
+    u16 b,
+}
+root packet P {
+    u8 K1,
+    u8 K2,
+    match K1 as M1 {
+        1 : A,
+    },
+    match K2 as M2 {
+        1 : B,
+    },
+}
+")).
+Eval vm_compute in ("<<<M485>>>" ++ check (runes_of_ascii "options
+{
+matchKey = 42/// triple
+x='0' ;
+// packet A { u8 x, }
+//
+charz
+=
+// packet A { u8 x, }
+// trailing space 
+true  ; } MetaData BodyLength
+{
+uint8
+pack")).
+Eval vm_compute in ("<<<M470>>>" ++ check (runes_of_ascii "options
+{
+matchKey = 42/// triple
+x='0' ;
+// packet A { u8 x, }
+//
+charz
+=
+// packet A { u8 x, }
+// trailing space 
+true  ; } MetaData BodyLength")).
+Eval vm_compute in ("<<<M465>>>" ++ check (runes_of_ascii "options
+{
+matchKey = 42/// triple
+x='0' ;
+// packet A { u8 x, }
+//
+charz
+=
+// packet A { u8 x, }
+// trailing space 
+true  ; } MetaData")).
+Eval vm_compute in ("<<<M599>>>" ++ check (runes_of_ascii "MetaData
+    // trailing space 
+    matchKey
+`line1
+line2` u64 chars // a // b
+,char[] lengthOf `// not a comment`
+    , //	t
+}")).
+Eval vm_compute in ("<<<M1570>>>" ++ check (runes_of_ascii "packet A {
     match k as n {
         [
-            1, ""bb"", 007, ""d"", 5,
-            ""f"", 7, ""h""
+            1, 22, 007, 4, 5,
+            66
         ] : B,
         2 : C,
     },
 }")).
-Eval vm_compute in ("<<<M652>>>" ++ check (runes_of_ascii "packet metadata {@calculatedFrom(""" ++ [233]%N ++ runes_of_ascii "t" ++ [233]%N ++ runes_of_ascii """
-// `tick` ""quote"" 'q'
-// " ++ [128512]%N ++ runes_of_ascii " emoji
-) @calculatedFrom(
-""1""
+Eval vm_compute in ("<<<M637>>>" ++ check (runes_of_ascii "MetaData
+    // trailing space 
+    matchKey
+{ u64 chars // a // b
+,char[] lengthOf `// not a comment`
+    , //	t
+} }")).
+Eval vm_compute in ("<<<M598>>>" ++ check (runes_of_ascii "MetaData
+    // trailing space 
+    matchKey
+u64 { chars // a // b
+,char[] lengthOf `// not a comment`
+    , //	t
+}")).
+Eval vm_compute in ("<<<M1540>>>" ++ check (runes_of_ascii "
+
+  packet
+Logon{@tag( 
+42
 )
-    repeat
-char
-i64_
-`a\` ,
-    }
-")).
-Eval vm_compute in ("<<<M1733>>>" ++ check (runes_of_ascii "root packet /// triple
-rootA {	i32
-MetaDataX@calculatedFrom( ""CRC32"" ) `line1
-line2` , } MetaData BodyLength {
-u8
-rootA? , } // c")).
-Eval vm_compute in ("<<<M1689>>>" ++ check (runes_of_ascii "root packet /// triple
-rootA {	i32
-MetaDataX@calculatedFrom( ""CRC32"" ) `line1
-line2` , } MetaData { BodyLength
-u8
-rootA, } // c")).
-Eval vm_compute in ("<<<M287>>>" ++ check (runes_of_ascii "
-MetaData Pad { int64 roots ,body u128
-    //x
-    , float64 x // trailing space 
-, int32
-    chars , A options1 `
-`,
-    }
-")).
-Eval vm_compute in ("<<<M515>>>" ++ check (runes_of_ascii "  MetaData//
-Foo
-    // `tick` ""quote"" 'q'
-    {char[ 65535
-    ] crc `" ++ [233]%N ++ runes_of_ascii "`	, repeatCount lengthOf
-,roots msg_type `it's` , }")).
-Eval vm_compute in ("<<<M1786>>>" ++ check (runes_of_ascii "packet
-    Pad Pad // a // b
-{ i8i8 @calculatedFrom( ""a	b"") `u8 x,` ,
-} options{ float// " ++ [128512]%N ++ runes_of_ascii " emoji
-= f64 i64_
-=//	t
-00 }
-")).
-Eval vm_compute in ("<<<M1811>>>" ++ check (runes_of_ascii "packet
-    Pad // a // b
-{ i8i8 @calculatedFrom( ""a	b"") ) `u8 x,` ,
-} options{ float// " ++ [128512]%N ++ runes_of_ascii " emoji
-= f64 i64_
-=//	t
-00 }
-")).
-Eval vm_compute in ("<<<M3055>>>" ++ check (runes_of_ascii "packet A {
-    match k as n {
-        ""x\
-y"" : B,
-        [""x\
-y"", 1] : C,
-        [1,2,3,4,5,""x\
-y""] : D,
-    },
-}")).
-Eval vm_compute in ("<<<M1867>>>" ++ check (runes_of_ascii "packet
-    Pad // a // b
-{ i8i8 @calculatedFrom( ""a	b"") `u8 x,` ,
-} options{ float// " ++ [128512]%N ++ runes_of_ascii " emoji
-= f64 i64_
-=//	t
-} 00
-")).
-Eval vm_compute in ("<<<M1865>>>" ++ check (runes_of_ascii "packet
-    Pad // a // b
-{ i8i8 @calculatedFrom( ""a	b"") `u8 x,` ,
-} options{ float// " ++ [128512]%N ++ runes_of_ascii " emoji
-= f64 i64_
-=//	t
- }
-")).
-Eval vm_compute in ("<<<M1784>>>" ++ check (runes_of_ascii "=
-    Pad // a // b
-{ i8i8 @calculatedFrom( ""a	b"") `u8 x,` ,
-} options{ float// " ++ [128512]%N ++ runes_of_ascii " emoji
-= f64 i64_
-=//	t
-00 }
-")).
-Eval vm_compute in ("<<<M3803>>>" ++ check (runes_of_ascii "options {
-    Logon = 007
-    leftPad = true;
-    repeatCount = 0
-    // a // b
-    u = i32;
-    f32a = '0';
-}")).
-Eval vm_compute in ("<<<M1478>>>" ++ check (runes_of_ascii "root packet Foo // " ++ [128512]%N ++ runes_of_ascii " emoji
-{ } options {
-    // a // b
-    tag // `tick` ""quote"" 'q'
-= //	t
-""""
-    ; u8x =")).
-Eval vm_compute in ("<<<M4153>>>" ++ check (runes_of_ascii "packet o {
-    @tag(42)
-    repeat x {
-        char[0123456789] i64_,
-        // c
-    },
-}
 
-options {
+@rightPad // c
+	  ( ' '  )  @leftPad(
+)  repeat
+trueish
+	{
+    string
+	T	,
+
+} ,}
+")).
+Eval vm_compute in ("<<<M624>>>" ++ check (runes_of_ascii "MetaData
+    // trailing space 
+    matchKey
+{ u64 chars // a // b
+,char[] ( `// not a comment`
+    , //	t
 }")).
-Eval vm_compute in ("<<<M3360>>>" ++ check (runes_of_ascii "packet calculatedFrom { @tag( 4294967296 ) u msg_type , char[ 3
-// c
-] crc @lengthOf( len ) `u8 x,` , }")).
-Eval vm_compute in ("<<<M2953>>>" ++ check (runes_of_ascii "packet A {
+Eval vm_compute in ("<<<M901>>>" ++ check (runes_of_ascii "packet A {
   match k as n {
-    [""a"", ""bb"", ""c c"", ""d"", ""e"", ""f"", ""g"", ""h"", ""i""] : B
+    [""a"", ""bb"", 007, ""d"", ""e"", 66, ""g"", ""h"", 9, ""j"", ""k""] : B
     2 : C
   },
 }")).
-Eval vm_compute in ("<<<M3609>>>" ++ check (runes_of_ascii "packet metadata {
-    @calculatedFrom(""" ++ [233]%N ++ runes_of_ascii "t" ++ [233]%N ++ runes_of_ascii """)
-    @calculatedFrom(""1"")
-    repeat char i64_ `a\`,
+Eval vm_compute in ("<<<M1259>>>" ++ check (runes_of_ascii "packet calculatedFrom { @tag( // c
+4294967296 ) u msg_type , char[ 3 ] crc @lengthOf( len ) `u8 x,` , }")).
+Eval vm_compute in ("<<<M1539>>>" ++ check (runes_of_ascii "options {
+    matchKey = 42/// triple
+    x = '0';
+    // packet A { u8 x, }
+    //
+    charz = true;
 }")).
-Eval vm_compute in ("<<<M176>>>" ++ check (runes_of_ascii "MetaData
-x_y_z
-{
-Logon
-    repeatCount `say ""hi""`,  crc
-    x_y_z
+Eval vm_compute in ("<<<M2015>>>" ++ check (runes_of_ascii "
+
+  packet	Inner {u8
+a
 ,
-    char[	10 ] Foo  ,
-}
-")).
-Eval vm_compute in ("<<<M3236>>>" ++ check (runes_of_ascii "packet Logon { @tag( 42 ) @rightPad ( ' ' ) @leftPad // c
-( ) repeat trueish { string T , } , }")).
-Eval vm_compute in ("<<<M2947>>>" ++ check (runes_of_ascii "packet A {
-  match k as n {
-    [""a"", ""bb"", 007, ""d"", ""e"", 66, ""g"", ""h""] : B,
-    2 : C
-  },
-}")).
-Eval vm_compute in ("<<<M521>>>" ++ check (runes_of_ascii "options { i8i8 = ""// no comment"" ; o
-=
-    '0'
-    Header
-='0' ; a1 =
-    zchar[
-    1
-] }
-")).
-Eval vm_compute in ("<<<M2941>>>" ++ check (runes_of_ascii "packet A {
-  match k as n {
-    [1, ""bb"", 007, ""d"", 5, ""f"", 7, ""h""] : B,
-    2 : C
-  },
-}")).
-Eval vm_compute in ("<<<M2913>>>" ++ check (runes_of_ascii "packet A {
-  match k as n {
-    [""a"", ""bb"", ""c c"", ""d"", ""e"", ""f""] : B,
-    2 : C
-  },
-}")).
-Eval vm_compute in ("<<<M3972>>>" ++ check (runes_of_ascii "options {
-    a = char[3];
-    b = zchar[0]
-    c = char[]
-    d = string
-    e = u8
-}")).
-Eval vm_compute in ("<<<M1971>>>" ++ check (runes_of_ascii "root
-packet crc
-     f32a @calculatedFrom( """ ++ [233]%N ++ runes_of_ascii "t" ++ [233]%N ++ runes_of_ascii """ )
-    `say ""hi""`, lengthOf `` ,  }")).
-Eval vm_compute in ("<<<M1182>>>" ++ check (runes_of_ascii "options {
-// a // b
-//
-Z9_
-= char[
-1
-]
-Foo = '0'
-; // `tick` ""quote"" 'q'
-} //	t")).
-Eval vm_compute in ("<<<M3303>>>" ++ check (runes_of_ascii "packet o { @tag( 42
-// c
-) repeat x { char[ 0123456789 ] i64_ , } , } options { }")).
-Eval vm_compute in ("<<<M4009>>>" ++ check (runes_of_ascii "packet
 
-    len{ 
-Logon  @calculatedFrom( 	 // a // b
-    ""a\""b""
+    }
+root  packet P 
+{
 
-    )  , }
-")).
-Eval vm_compute in ("<<<M3464>>>" ++ check (runes_of_ascii "root
+    repeat
+Inner
+items
 
-    packet P  { 
-repeat
-string
-
-    ss
-
-    ,	repeat 
-u16	ns
-
+    ,
+u8	x
 ,}
 ")).
-Eval vm_compute in ("<<<M677>>>" ++ check (runes_of_ascii "options {
-leftPad = string u128  =
-    ""abc""
-uint8x = """ ++ [128512]%N ++ runes_of_ascii """Z9_ = 0123456789}
-")).
-Eval vm_compute in ("<<<M2757>>>" ++ check (runes_of_ascii "char @lengthOf( @lengthOf( false string = ( '0' i32 : float32 i64 u64 true")).
-Eval vm_compute in ("<<<M3184>>>" ++ check (runes_of_ascii "packet A {
-    match k as n {
-        1 : B // c
-        , // d
-    },
-}")).
-Eval vm_compute in ("<<<M3395>>>" ++ check (runes_of_ascii "MetaData // c
-_x { zchar[ 4294967296 ] lengthOf `// not a comment` , }")).
-Eval vm_compute in ("<<<M2885>>>" ++ check (runes_of_ascii "packet A {
-  match k as n {
-    [1, 22, 007, 4] : B,
-    2 : C
-  },
-}")).
-Eval vm_compute in ("<<<M15>>>" ++ check (runes_of_ascii "options
-    { Z9_
-    =
-""" ++ [233]%N ++ runes_of_ascii "t" ++ [233]%N ++ runes_of_ascii """; rootA = string; } // trailing space ")).
-Eval vm_compute in ("<<<M2872>>>" ++ check (runes_of_ascii "packet A {
-  match k as n {
-    [1, 22, 007] : B,
-    2 : C
-  },
-}")).
-Eval vm_compute in ("<<<M2866>>>" ++ check (runes_of_ascii "packet A {
-  match k as n {
-    [""a"", ""bb""] : B
-    2 : C
-  },
-}")).
-Eval vm_compute in ("<<<M112>>>" ++ check (runes_of_ascii "options { calculatedFrom  =// `tick` ""quote"" 'q'
-""packet""; }
-")).
-Eval vm_compute in ("<<<M618>>>" ++ check (runes_of_ascii "options { crc =true ;lengthOf
-= // a // b
-char[	0 ] } //	t")).
-Eval vm_compute in ("<<<M1060>>>" ++ check (runes_of_ascii "  packet
-//	t
-//
-packetx{ repeat zchar[
-    007 ]	Foo,
-}")).
-Eval vm_compute in ("<<<M1951>>>" ++ check (runes_of_ascii "
-packet	As { @calculatedFrom(//x
-""{,}""	)lengthOf , } 	 " ++ [8232]%N)).
-Eval vm_compute in ("<<<M3155>>>" ++ check (runes_of_ascii "packet A { match k as n { 1 : B // a // b 2 : C }, }")).
-Eval vm_compute in ("<<<M2401>>>" ++ check (runes_of_ascii "MetaData A
-{
-i64
-@x chars	, } // `tick` ""quote"" 'q'")).
-Eval vm_compute in ("<<<M547>>>" ++ check (runes_of_ascii "
-options {
-    tag
-=i32
-    zchar =
-    ""\n""; }
-")).
-Eval vm_compute in ("<<<M3418>>>" ++ check (runes_of_ascii "root packet P {
-    repeat char cs,
-    u8 x,
-}
-")).
-Eval vm_compute in ("<<<M3956>>>" ++ check (runes_of_ascii "  packet
-
-    asx 
-{
-    u64 
-MetaDataX  , } ")).
-Eval vm_compute in ("<<<M2139>>>" ++ check (runes_of_ascii "'\x01' MetaData x
-{// " ++ [128512]%N ++ runes_of_ascii " emoji
-i16 stringy , }")).
-Eval vm_compute in ("<<<M754>>>" ++ check (runes_of_ascii "MetaData
-    /// triple
-    BodyLength
-{}
-")).
-Eval vm_compute in ("<<<M4190>>>" ++ check (runes_of_ascii "
-packet
-A
-    { u8 x
-
-`d" ++ [6158]%N ++ runes_of_ascii "`
-, // c" ++ [6158]%N ++ runes_of_ascii "
-    }")).
-Eval vm_compute in ("<<<M1929>>>" ++ check (runes_of_ascii "
-packet	As { @calculatedFrom(//x
-""{,}""	)")).
-Eval vm_compute in ("<<<M3203>>>" ++ check (runes_of_ascii "MetaData zchar { zchar[ 3 ] Pad
+Eval vm_compute in ("<<<M1137>>>" ++ check (runes_of_ascii "packet Logon { @tag(
+// c
+42 ) @rightPad ( ' ' ) @leftPad ( ) repeat trueish { string T , } , }")).
+Eval vm_compute in ("<<<M1169>>>" ++ check (runes_of_ascii "packet Logon { @tag( 42 ) @rightPad ( ' ' ) @leftPad ( ) repeat trueish { string T , }
 // c
 , }")).
-Eval vm_compute in ("<<<M1166>>>" ++ check (runes_of_ascii "// " ++ [128512]%N ++ runes_of_ascii " emoji
-options { u128 = '\x00'
-; }")).
-Eval vm_compute in ("<<<M1362>>>" ++ check (runes_of_ascii "// " ++ [27880; 37322]%N ++ runes_of_ascii "
-options {
-crc
-=false
-    ; }
-")).
-Eval vm_compute in ("<<<M3166>>>" ++ check (runes_of_ascii "options { a = 1; // a
- b = 2 // b
- }")).
-Eval vm_compute in ("<<<M3031>>>" ++ check (runes_of_ascii "root packet A {
-    u8 x `a
-
-b`,
+Eval vm_compute in ("<<<M1619>>>" ++ check (runes_of_ascii "packet A {
+    match k as n {
+        [""a"", 22, ""c c"", 4, ""e""] : B,
+        2 : C,
+    },
 }")).
-Eval vm_compute in ("<<<M3037>>>" ++ check (runes_of_ascii "root packet A {
+Eval vm_compute in ("<<<M844>>>" ++ check (runes_of_ascii "packet A {
+  match k as n {
+    [""a"", 22, ""c c"", 4, ""e"", 66, ""g""] : B,
+    2 : C
+  },
+}")).
+Eval vm_compute in ("<<<M965>>>" ++ check (runes_of_ascii "packet A {
+    u32 crc @calculatedFrom(""x\
+y""),
+    @calculatedFrom(""x\
+y"") u8 y,
+}")).
+Eval vm_compute in ("<<<M1220>>>" ++ check (runes_of_ascii "packet o { @tag( 42 ) repeat // c
+x { char[ 0123456789 ] i64_ , } , } options { }")).
+Eval vm_compute in ("<<<M1901>>>" ++ check (runes_of_ascii "  MetaData _x
+
+{ 
+zchar[ 4294967296 // c
+    ] lengthOf `// not a comment` ,
+
+}
+
+")).
+Eval vm_compute in ("<<<M801>>>" ++ check (runes_of_ascii "packet A {
+  match k as n {
+    [""a"", ""bb"", ""c c"", ""d""] : B,
+    2 : C
+  },
+}")).
+Eval vm_compute in ("<<<M1914>>>" ++ check (runes_of_ascii "packet Inner {
+    u8 a,
+}
+
+root packet P {
+    Inner ref_obj,
+    u8 x,
+}")).
+Eval vm_compute in ("<<<M321>>>" ++ check (runes_of_ascii "MetaData As { } MetaData asx
+{
+    char[ 007 ] Logon
+`two words` , }
+")).
+Eval vm_compute in ("<<<M269>>>" ++ check (runes_of_ascii "MetaData u8x { uint32 i8i8 `it's`, } options
+{
+    Logon
+= '0'	; }
+")).
+Eval vm_compute in ("<<<M1182>>>" ++ check (runes_of_ascii "options { // c1
+u8x // c2a
+  // c2b
+= // c3a
+  // c3b
+3 } // c5
+")).
+Eval vm_compute in ("<<<M1090>>>" ++ check (runes_of_ascii "packet A { @leftPad() char[4] x, @rightPad( ) zchar[2] y, }")).
+Eval vm_compute in ("<<<M785>>>" ++ check (runes_of_ascii "packet A { Inner { match k as n { [1,22] : B, }, }, }")).
+Eval vm_compute in ("<<<M950>>>" ++ check (runes_of_ascii "MetaData M {
     u8 x `x
 `,
+    T t `x
+`,
 }")).
-Eval vm_compute in ("<<<M1438>>>" ++ check (runes_of_ascii "root packet Foo // " ++ [128512]%N ++ runes_of_ascii " emoji
-{ }")).
-Eval vm_compute in ("<<<M657>>>" ++ check (runes_of_ascii "
-MetaData a1
-{ // " ++ [128512]%N ++ runes_of_ascii " emoji
-}")).
-Eval vm_compute in ("<<<M2822>>>" ++ check ([65533; 65533; 65533; 65533]%N ++ runes_of_ascii "
-" ++ [65533; 4; 4]%N ++ runes_of_ascii "#" ++ [65533]%N ++ runes_of_ascii "OXy" ++ [65533; 65533; 65533; 29; 65533]%N ++ runes_of_ascii "%9 I*" ++ [65533; 65533; 597; 65533; 65533]%N)).
-Eval vm_compute in ("<<<M4339>>>" ++ check (runes_of_ascii "
-packet A
-{
-    } 	 // c" ++ [8233]%N ++ runes_of_ascii "
-")).
-Eval vm_compute in ("<<<M880>>>" ++ check (runes_of_ascii "// " ++ [128512]%N ++ runes_of_ascii " emoji
-packet f32a{}
-")).
-Eval vm_compute in ("<<<M807>>>" ++ check (runes_of_ascii "  packet stringy {
-    }")).
-Eval vm_compute in ("<<<M3384>>>" ++ check (runes_of_ascii "packet lengthOf // c
-{ }")).
-Eval vm_compute in ("<<<M23>>>" ++ check (runes_of_ascii "packet BodyLength { }
-")).
-Eval vm_compute in ("<<<M2061>>>" ++ check (runes_of_ascii "MetaData A {  pack, }")).
-Eval vm_compute in ("<<<M2697>>>" ++ check (runes_of_ascii "options """ ++ [128512]%N ++ runes_of_ascii """ `" ++ [28040; 24687; 31867; 22411]%N ++ runes_of_ascii "` }")).
-Eval vm_compute in ("<<<M3579>>>" ++ check (runes_of_ascii "packet matchKey {
-}")).
-Eval vm_compute in ("<<<M3071>>>" ++ check (runes_of_ascii "packet A {
-}
-// c" ++ [160]%N)).
-Eval vm_compute in ("<<<M3824>>>" ++ check (runes_of_ascii "  packet i8i8 {
-}
-")).
-Eval vm_compute in ("<<<M3114>>>" ++ check (runes_of_ascii "packet A {
-}// c" ++ [11]%N)).
-Eval vm_compute in ("<<<M2025>>>" ++ check (runes_of_ascii "root
-packet cr")).
-Eval vm_compute in ("<<<M2746>>>" ++ check (runes_of_ascii "uint16 = int8")).
-Eval vm_compute in ("<<<M2060>>>" ++ check (runes_of_ascii "MetaData A")).
-Eval vm_compute in ("<<<M323>>>" ++ check (runes_of_ascii "// c
-
+Eval vm_compute in ("<<<M1112>>>" ++ check (runes_of_ascii "MetaData zchar { zchar[ 3 // c
+] Pad , }")).
+Eval vm_compute in ("<<<M1067>>>" ++ check (runes_of_ascii "options { a = 1 // c b = 2; // d}")).
+Eval vm_compute in ("<<<M1702>>>" ++ check (runes_of_ascii "packet  // c
+    	lengthOf { }
 
 ")).
-Eval vm_compute in ("<<<M2510>>>" ++ check (runes_of_ascii """a\
-b""")).
-Eval vm_compute in ("<<<M2701>>>" ++ check (runes_of_ascii "{ : =")).
-Eval vm_compute in ("<<<M2467>>>" ++ check (runes_of_ascii "ROOT")).
-Eval vm_compute in ("<<<M2506>>>" ++ check (runes_of_ascii """a\")).
-Eval vm_compute in ("<<<M2505>>>" ++ check (runes_of_ascii """a")).
-Eval vm_compute in ("<<<M2685>>>" ++ check ([0]%N)).
+Eval vm_compute in ("<<<M1027>>>" ++ check (runes_of_ascii "packet A {
+ u8 x `d" ++ [8287]%N ++ runes_of_ascii "`, // c" ++ [8287]%N ++ runes_of_ascii "
+}")).
+Eval vm_compute in ("<<<M1717>>>" ++ check (runes_of_ascii "// c" ++ [160]%N ++ runes_of_ascii "
+    packet
+
+A  {
+} ")).
+Eval vm_compute in ("<<<M1300>>>" ++ check (runes_of_ascii "packet lengthOf { // c
+}")).
+Eval vm_compute in ("<<<M1040>>>" ++ check (runes_of_ascii "packet A {
+}
+// c 	")).
+Eval vm_compute in ("<<<M1030>>>" ++ check (runes_of_ascii "packet A {
+}
+// c" ++ [11]%N)).
+Eval vm_compute in ("<<<M1033>>>" ++ check (runes_of_ascii "packet A {
+}// c" ++ [12]%N)).
+Eval vm_compute in ("<<<M2003>>>" ++ check (runes_of_ascii "
+
+  // c" ++ [133]%N)).
+Eval vm_compute in ("<<<M73>>>" ++ check (runes_of_ascii " 	 ")).
